@@ -15,28 +15,28 @@ func init() {
 	register(&PropSpec{
 		ID:    "C04",
 		Title: "Packing files into zips is invisible to clients and recoverable from the zips",
-		Explanation: "Decided (structural necessary conditions in pkg/blobserver/blobpacked): " +
-			"Z-order — in (*packer).writeAZip every removal of loose blobs from 'small' lies on the success edge of a meta CommitBatch, every meta write/commit lies on the success edge of the receive of the zip into 'large', every row put into a batch is put into a batch that is committed afterwards and names (in key or value) the ref under which that zip was received; every source of the refs handed to small.RemoveBlobs there is also a source of the key of a b: row of that batch (local element-flow; same sources, not same run-time sets); the un-suffixed whole-file row 'w:<wholeref>' is written outside reindex only where the MakingZips loop has exited (pk.chunksRemain known empty); small.RemoveBlobs is called only from writeAZip and the client-facing RemoveBlobs (frame rule: any other removal site is unordered with respect to a committed mapping). " +
-			"Z-size — the bytes received into 'large' come from a bytes.Buffer whose Len() is known <= the result of (*storage).maxZipBlobSize at the receive, and every return of maxZipBlobSize is the test override field or a constant <= constants.MaxBlobSize. " +
+		Explanation: "Decided (structural necessary conditions in pkg/blobserver/blobpacked). Every clause that names a function means that function's EFFECTIVE BODY: the function plus, transitively (depth <= 5), the unexported functions/methods of the package and the function literals it calls with a plain call (not go/defer); a helper's parameter stands for the caller's argument, a helper call's result for what the helper returns; 'on the success edge of step P' holds across a call when P lies in a helper all of whose returns (or all of whose possibly-successful returns, the site then being on the err==nil edge of the helper call, also through a panic-unless-nil function such as check(err)) are on P's success edge, or the helper returns P's own error; a branch fact established by a helper on all its successful returns counts at sites on the success edge of that helper call; who-may-call clauses accept a helper all of whose static callers are accepted (recursively; not used as a value or through an interface) and report a helper with any other caller. " +
+			"Z-order — in (*packer).writeAZip every removal of loose blobs from 'small' lies on the success edge of a meta CommitBatch, every meta write/commit lies on the success edge of the receive of the zip into 'large', every row put into a batch is put into a batch that is committed afterwards and names (in key or value) the ref under which that zip was received; every source of the refs handed to small.RemoveBlobs there is also a source of the key of a b: row of that batch (local element-flow; same sources, not same run-time sets); the un-suffixed whole-file row 'w:<wholeref>' is written outside reindex only where the MakingZips loop has exited (pk.chunksRemain known empty); small.RemoveBlobs (on s.small, or on a helper parameter every caller binds to s.small) is called only from writeAZip, the client-facing RemoveBlobs and helpers only they call (frame rule: any other removal site is unordered with respect to a committed mapping; a removal that writeAZip runs deferred, spawned or deeper than 5 helpers is undecided). " +
+			"Z-size — the bytes received into 'large' come from a bytes.Buffer whose Len() is known <= a bound at the receive, and every value that bound may take (followed through locals, phis, helper parameters and the returns of package functions such as (*storage).maxZipBlobSize, which may also be inlined) is the test override field storage.forceMaxZipBlobSize or a constant in (0, constants.MaxBlobSize]; the override is never assigned in non-test code. " +
 			"Z-read — in Fetch, SubFetch and StatBlobs every call into 'small' is unreachable once the getMetaRow row of the same ref is known to exist and be packed, every call into 'large' is unreachable when it is known not packed and takes ref/offset/length from that row (offset also from the caller's offset in SubFetch); the refs StatBlobs forwards to 'small' are exactly those appended after a miss in the meta lookup, and its callback answers from the row only when the row exists and with the row's size; ReceiveBlob acknowledges only when the row exists or small.ReceiveBlob succeeded; EnumerateBlobs merges exactly 'small' and the enumerator over the 'b:' range. " +
 			"Z-codec — every meta row writer in the package has a statically known key/value shape; for each kind (b:, w:<ref>:<n>, w:<ref>, z:) the packer-side and the reindex-side writers produce the same field sequence (separators, ref vs. decimal integer), the parsers (parseMetaRow, parseMetaRowSizeOnly, parseZipMetaRow, conv.ParseFields in OpenWholeRef) expect that field count and kinds in base 10 with a bit size not below the narrowest unsigned type any writer renders for that field; every meta.Find range ends at the successor of its prefix/separator; Manifest/BlobAndPos fields read by reindex/foreachZipBlob are written by writeAZip. " +
 			"Z-count — the reader of the un-suffixed whole-file row (found structurally: the function that parses the row value into integers and compares one of them with the number of part records collected from the ':<idx>'-suffixed keys; today OpenWholeRef, integer #1) returns success only under the fact 'count == number of w:<ref>:<idx> rows found' (so an interrupted pack, which has part rows and no final row, and a count that disagrees with the part rows are refused); every writer of the w:<ref> row (pack, reindex) computes the integer at that position from the very thing that keys the w:<ref>:<idx> rows written by the same pass (the writing function, its literals and the package functions it calls): the struct field holding each part's index (reindex: zipMetaInfo.wholePartIndex) or the collection whose length is each part's index (packer: packer.zips) — 'computed from' = backward data slice incl. locals, one level of package helper calls on the data path, and branch conditions that select merged values; a count taken from how many zips/attempts were seen (len of another collection, a separately bumped counter) is reported. Recorded as supporting fact, not required: the reader fails on a part whose index differs from its position, i.e. indexes are dense 0..count-1. " +
 			"Z-recover — newFromConfig returns a usable store only after checkLargeIntegrity was called and, once reindex was started, only on its success edge; reindex reports success only on the success edge of each of its top-level CommitBatch calls and assigns s.meta the very KeyValue it filled; large.RemoveBlobs (deleting a zip) is only reachable where zipPartsInUse of the same ref succeeded and returned no part in use. " +
 			"Z-whole-blob — every description of a packed blob built in (*packer).writeAZip (each b: row of the batch, resolved per element constructor of the slice it is rendered from, and each element appended to a []BlobAndPos field of the Manifest) is a (ref, size) pair with exactly one source each, and the blob is moved WHOLE: (data chunks) the recorded size is the size result of a Fetch/StatBlob of that ref, or a lookup in a map field of the packer that is not modified inside writeAZip and that a dominating == fact (value-preserving integer conversions looked through; <, <=, >, >= and != facts do not count) equates with the size Fetch reported for the same ref at the point where the ref is recorded as written (the append through which it reaches the row); before that point an io.Copy/CopyN of that Fetch's reader into a zip entry writer is passed on every path, uncapped or capped (CopyN / io.LimitReader) at a length that is the fetched size or proven equal to it, or with the copied byte count proven equal to it; (schema blobs) the recorded size is Size() of the *blob.Blob looked up under the recorded ref in a map field every writer of which stores blob.FromFetcher(_, key) under key, and on every path from the description to the receive of the zip into large an io.Copy from ReadAll of that same Blob (uncapped, or capped at its Size()) goes into a zip entry whose name renders exactly that ref (foreachZipBlob/reindex derive ref and size from the entry). " +
-			"NOT decided: equality of client-visible bytes/sizes before, during and after a pack (Z-whole-blob decides only that size and bytes recorded for a ref are the stored blob's, not offsets, the position of the bytes in the zip or that copy errors are checked; two different elements of the same local slice are not told apart — reported as undecided; fetch/compare/copy moved into a helper is reported as undecided); that the b: rows cover, as run-time sets, exactly the blobs removed from small (only that both are built from the same local sources); zip validity and that the first entry is the contiguous file; accuracy of the size estimate and termination of truncate-and-retry; the arithmetic of the part count (that it is exactly 'highest index + 1' / the number of distinct indexes — only what it is computed from; a separately maintained counter that happens to be right is reported too); any crash schedule or recovery outcome; streaming (StreamBlobs) and whole-file reads beyond the row codec; deletion marks (d: rows).",
+			"NOT decided: equality of client-visible bytes/sizes before, during and after a pack (Z-whole-blob decides only that size and bytes recorded for a ref are the stored blob's, not offsets, the position of the bytes in the zip or that copy errors are checked; two different elements of the same local slice are not told apart — reported as undecided; fetch/compare/copy moved into a function outside the effective body (exported, another package, called through a value) is reported as undecided); that the b: rows cover, as run-time sets, exactly the blobs removed from small (only that both are built from the same local sources); zip validity and that the first entry is the contiguous file; accuracy of the size estimate and termination of truncate-and-retry; the arithmetic of the part count (that it is exactly 'highest index + 1' / the number of distinct indexes — only what it is computed from; a separately maintained counter that happens to be right is reported too); any crash schedule or recovery outcome; streaming (StreamBlobs) and whole-file reads beyond the row codec; deletion marks (d: rows). Remaining name anchors (a rename or inlining of these makes the check stop with 'anchor unresolved', exit 2, not a verdict): (*packer).writeAZip, (*packer).pack, (*storage).reindex, newFromConfig, (*storage).checkLargeIntegrity, (*storage).getMetaRow, (*storage).zipPartsInUse, the entry points Fetch/SubFetch/StatBlobs/ReceiveBlob/RemoveBlobs/EnumerateBlobs/OpenWholeRef, the types storage/packer/meta/Manifest/BlobAndPos/enumerator; (*storage).maxZipBlobSize, (*meta).isPacked and the three row parsers may be inlined (the parsers are then found as the value parses of getMetaRow / (enumerator).EnumerateBlobs / checkLargeIntegrity). A getMetaRow lookup wrapped in a further helper that returns the row, a row predicate wrapped in a bool helper, and a stat callback passed as a method value instead of a literal are not followed (reported as violation/undecided).",
 		RuleDocs: map[string]string{
-			"Z-order":      "dominance on err==nil edges in (*packer).writeAZip (receive into large -> CommitBatch -> small.RemoveBlobs), value identity of the zip ref in every batch row, loop-exit fact for the whole-file row in (*packer).pack, who-may-call for small.RemoveBlobs",
-			"Z-size":       "dominating comparison fact zbuf.Len() <= maxZipBlobSize() at the large receive over the very buffer that is received; constant bound of maxZipBlobSize against constants.MaxBlobSize",
-			"Z-read":       "path pruning under the assumption 'row exists and is packed' / 'row is not packed' from each getMetaRow lookup in Fetch/SubFetch/StatBlobs/ReceiveBlob; value dependence of the large read on the row; literal structure of the MergedEnumerate sources",
-			"Z-recover":    "dominance: start-up (newFromConfig) returns a store only after checkLargeIntegrity ran and, in a recovery mode, after reindex succeeded; reindex returns success only after every top-level CommitBatch on the new index succeeded and installs that same index; a zip is removed from large only where zipPartsInUse of the same ref succeeded with an empty result",
+			"Z-order":      "dominance on err==nil edges in the effective body of (*packer).writeAZip (receive into large -> CommitBatch -> small.RemoveBlobs; steps and sites may lie in helpers, success is carried across the helper calls), value identity of the zip ref in every batch row (helper parameters mapped to arguments), loop-exit fact for the whole-file row in the effective body of (*packer).pack (also when a helper that runs the loop establishes it on its successful returns), who-may-call for small.RemoveBlobs (helpers accepted when all their static callers are)",
+			"Z-size":       "dominating comparison fact zbuf.Len() <= bound at the large receive (in writeAZip's effective body) over the very buffer that is received; every value the bound may take is the test override field or a constant <= constants.MaxBlobSize (maxZipBlobSize followed through its returns, or inlined)",
+			"Z-read":       "path pruning (interprocedural over the effective bodies of Fetch/SubFetch/StatBlobs/ReceiveBlob and of their callbacks: helper calls are entered, a helper that can only return an error continues on the caller's error branch) under the assumption 'row exists and is packed' / 'row is not packed' from each getMetaRow lookup; the row may be passed to helpers by value or by pointer; value dependence of the large read on the row; literal structure of the MergedEnumerate sources",
+			"Z-recover":    "dominance over effective bodies: start-up (newFromConfig) returns a store only after checkLargeIntegrity ran and, in a recovery mode, after reindex succeeded; reindex returns success only after every top-level CommitBatch on the new index succeeded and installs that same index; a zip is removed from large only where zipPartsInUse of the same ref succeeded with an empty result (checked in the removing function, or, for a helper, in the context of every one of its callers)",
 			"Z-count":      "writer/reader agreement by value dependence: the integer of the w:<ref> row that the reader requires to equal the number of w:<ref>:<idx> rows (dominating equality fact on every successful return) must, in each writer, depend on the field / collection that the part indexes of the same pass are formatted from",
 			"Z-whole-blob": "value dependence + dominating equality facts in (*packer).writeAZip: for every (ref, size) description that reaches a b: row or the manifest, the size is the store-reported size of that very ref or proven == to it where the ref is recorded (an inequality guard does not count), and the bytes copied into the zip come from the fetch of that ref (data) / the *blob.Blob held for that ref (schema) without a cap below that size; the schema entry's zip name renders the same ref",
 			"Z-codec":      "table agreement: statically evaluated Sprintf/concatenation shapes of all meta row writers, compared between sibling writers and with the parse-call chains of the parsers; Find range limits; struct fields read vs. written for the zip manifest",
 		},
 		Run:       runC04,
 		DesignRef: "DESIGN.md §4 C04",
-		Technique: "static analysis: dominance on error-success edges, path pruning under row-state assumptions, value identity/dependence over go/ssa, table agreement between row writers and parsers, value dependence of the stored part count on the part-index source, pairing of (ref, size) descriptions by local element flow with dominating == facts between the recorded and the store-reported size",
-		LevelText: "Decides structural necessary conditions only: the zip is stored before its rows are committed and the rows before loose copies are removed; stored zips are bounded by the blob size limit; reads pick small vs. large by the meta row of the same ref; packer, reindex and the parsers agree on the meta row codec and reindex reads only manifest fields the packer writes; the part count of the whole-file row is computed from the part indexes that key the part rows and the reader serves a whole file only when both agree; a blob that gets a b: row / manifest entry is recorded with the size the store reports for it (or one proven equal by an == guard) and its bytes are copied uncapped from the fetch of the same ref, so a part that references only a prefix of a longer blob cannot be packed as if it were the blob. Does not decide the arithmetic of that count, byte-level equality of what clients see, crash/recovery outcomes, zip validity or the size estimate (level 'other').",
+		Technique: "static analysis over effective bodies (a function plus the unexported package functions and literals it calls, arguments mapped to parameters, success and branch facts carried across the calls): dominance on error-success edges, path pruning under row-state assumptions, value identity/dependence over go/ssa, table agreement between row writers and parsers, value dependence of the stored part count on the part-index source, pairing of (ref, size) descriptions by local element flow with dominating == facts between the recorded and the store-reported size",
+		LevelText: "Decides structural necessary conditions only (robust to extracting/inlining unexported helpers, closure<->method, if<->switch, loop forms and hoisted locals: sites are looked for in effective bodies, not in named functions): the zip is stored before its rows are committed and the rows before loose copies are removed; stored zips are bounded by the blob size limit; reads pick small vs. large by the meta row of the same ref; packer, reindex and the parsers agree on the meta row codec and reindex reads only manifest fields the packer writes; the part count of the whole-file row is computed from the part indexes that key the part rows and the reader serves a whole file only when both agree; a blob that gets a b: row / manifest entry is recorded with the size the store reports for it (or one proven equal by an == guard) and its bytes are copied uncapped from the fetch of the same ref, so a part that references only a prefix of a longer blob cannot be packed as if it were the blob. Does not decide the arithmetic of that count, byte-level equality of what clients see, crash/recovery outcomes, zip validity or the size estimate (level 'other').",
 	})
 }
 
@@ -186,7 +186,49 @@ func c04SuccessAt(call *ssa.Call, site ssa.Instruction) (bool, string) {
 			}
 		}
 	}
+	// the error handed to a function that only returns when it is nil
+	// (`check(err)`), on every path to the site
+	for _, v := range vals {
+		if v == nil || v.Referrers() == nil {
+			continue
+		}
+		for _, u := range *v.Referrers() {
+			ac, ok := u.(*ssa.Call)
+			if !ok || !Precedes(ac, site) {
+				continue
+			}
+			f := ac.Call.StaticCallee()
+			if f == nil || !InModule(f) || f.Blocks == nil || len(f.Params) != len(ac.Call.Args) {
+				continue
+			}
+			for i, a := range ac.Call.Args {
+				if a == v && c04ReturnsOnlyIfNil(f, f.Params[i]) {
+					return true, ""
+				}
+			}
+		}
+	}
 	return false, "the site is not on the err==nil edge of the call"
+}
+
+// c04ReturnsOnlyIfNil: every return of f lies under the fact prm == nil.
+func c04ReturnsOnlyIfNil(f *ssa.Function, prm *ssa.Parameter) bool {
+	rets := Returns(f)
+	if len(rets) == 0 || len(f.AnonFuncs) > 0 {
+		return false
+	}
+	for _, ri := range rets {
+		ok := false
+		for _, cf := range FactsAt(ri.Ret.Block()) {
+			if k, isNil := c04CondSaysNil(cf.Cond, cf.Val, prm); k && isNil {
+				ok = true
+			}
+		}
+		if !ok {
+			return false
+		}
+	}
+	return true
 }
 
 func c04CondSaysNil(cond ssa.Value, val bool, v ssa.Value) (known, isNil bool) {
@@ -238,7 +280,7 @@ func c04RootAlloc(addr ssa.Value) *ssa.Alloc {
 // addressed through field/index chains (struct literals, varargs arrays,
 // locals such as zipSB whose fields are read back).
 func c04Depends(v ssa.Value, target func(ssa.Value) bool) bool {
-	return c04DependsOpt(v, target, false)
+	return c04DependsIn(nil, v, target, false)
 }
 
 // c04DependsOpt is c04Depends; with ctl it additionally follows
@@ -252,6 +294,13 @@ func c04Depends(v ssa.Value, target func(ssa.Value) bool) bool {
 //     entered (a counter bumped under `err == nil` of a call is not "computed
 //     from" what the callee reads).
 func c04DependsOpt(v ssa.Value, target func(ssa.Value) bool, ctl bool) bool {
+	return c04DependsIn(nil, v, target, ctl)
+}
+
+// c04DependsIn is c04DependsOpt inside an effective body (nil: one function):
+// a helper's parameter depends on the caller's arguments, the result of a
+// call that enters a helper on what the helper returns.
+func c04DependsIn(body *c04Body, v ssa.Value, target func(ssa.Value) bool, ctl bool) bool {
 	seen := [2]map[ssa.Value]bool{{}, {}} // [1]: reached through a branch condition
 	storeIdx := map[*ssa.Function]map[*ssa.Alloc][]*ssa.Store{}
 	storesUnder := func(al *ssa.Alloc) []*ssa.Store {
@@ -330,6 +379,23 @@ func c04DependsOpt(v ssa.Value, target func(ssa.Value) bool, ctl bool) bool {
 			}
 			return false
 		}
+		if prm, ok := v.(*ssa.Parameter); ok {
+			for _, a := range body.argsOf(prm) {
+				if walk(a, depth+1, inCond) {
+					return true
+				}
+			}
+			return false
+		}
+		if rs, ok := body.resultsOf(v); ok && !inCond {
+			// (a helper call that is only reached through a branch condition is not entered:
+			// a counter bumped under `err == nil` of a call is not computed from what the callee reads)
+			for _, rv := range rs {
+				if walk(rv, depth+1, inCond) {
+					return true
+				}
+			}
+		}
 		if in, ok := v.(ssa.Instruction); ok {
 			for _, op := range in.Operands(nil) {
 				if *op != nil && walk(*op, depth+1, inCond) {
@@ -360,39 +426,6 @@ func c04BodyHas(f *ssa.Function, target func(ssa.Value) bool, depth int) bool {
 		}
 	}
 	return false
-}
-
-// c04ReachAssuming is ReachableFrom with branch pruning: assume may decide an
-// If condition, in which case only that successor is followed.
-func c04ReachAssuming(start ssa.Instruction, assume func(cond ssa.Value) (known, val bool)) map[ssa.Instruction]bool {
-	out := map[ssa.Instruction]bool{}
-	seen := map[*ssa.BasicBlock]bool{}
-	var walk func(b *ssa.BasicBlock, from int)
-	walk = func(b *ssa.BasicBlock, from int) {
-		for i := from; i < len(b.Instrs); i++ {
-			out[b.Instrs[i]] = true
-		}
-		succs := b.Succs
-		if len(b.Instrs) > 0 {
-			if ifi, ok := b.Instrs[len(b.Instrs)-1].(*ssa.If); ok && len(b.Succs) == 2 && assume != nil {
-				if k, val := assume(ifi.Cond); k {
-					if val {
-						succs = b.Succs[:1]
-					} else {
-						succs = b.Succs[1:2]
-					}
-				}
-			}
-		}
-		for _, s := range succs {
-			if !seen[s] {
-				seen[s] = true
-				walk(s, 0)
-			}
-		}
-	}
-	walk(start.Block(), instrIndex(start)+1)
-	return out
 }
 
 // c04VarargElems returns the element values of a `slice (new [N]T)[:]`
@@ -447,6 +480,583 @@ func c04VarargElems(v ssa.Value) ([]ssa.Value, bool) {
 }
 
 func c04Line(p *Program, pos token.Pos) int { return p.Fset.Position(pos).Line }
+
+// ---------------------------------------------------------------------------
+// effective bodies: a rule that looks for a site "in function F" looks in F's
+// effective body — F plus, transitively, the unexported functions/methods of
+// the package and the function literals that F calls statically (plain calls,
+// not go/defer). Each activation is a frame; a helper called from two places
+// has two frames. Sites are (frame, instruction) pairs; ordering facts are
+// carried across the calls by lifting both sites to their deepest common
+// frame, values by mapping a helper's parameter to the caller's argument and a
+// helper call's result to what the helper returns.
+
+const c04MaxFrameDepth = 5
+
+type c04Frame struct {
+	fn     *ssa.Function
+	call   ssa.CallInstruction // the call in parent.fn that enters fn (nil for the root)
+	parent *c04Frame
+	kids   map[ssa.CallInstruction]*c04Frame
+	depth  int
+}
+
+type c04Body struct {
+	root   *c04Frame
+	frames []*c04Frame // pre-order
+}
+
+// c04Site is an instruction in one activation.
+type c04Site struct {
+	fr *c04Frame
+	in ssa.Instruction
+}
+
+func (s c04Site) call() CallSite {
+	ci, _ := s.in.(ssa.CallInstruction)
+	return CallSite{s.fr.fn, ci}
+}
+
+// c04IsHelper: a function whose body counts as part of its callers' bodies.
+func c04IsHelper(f *ssa.Function) bool {
+	if f == nil || f.Blocks == nil {
+		return false
+	}
+	top := TopFunc(f)
+	if top.Pkg == nil || RelPkg(top.Pkg.Pkg) != c04Rel {
+		return false
+	}
+	if f.Parent() != nil {
+		return true // a function literal that is called directly
+	}
+	return !token.IsExported(f.Name())
+}
+
+// bodies are cached per loaded program (the cache is dropped when a function
+// of another program is asked for, so that selftest shards do not retain the
+// programs of earlier mutants)
+var c04BodyCache = map[*ssa.Function]*c04Body{}
+var c04BodyProg *ssa.Program
+
+func c04BodyOf(root *ssa.Function) *c04Body {
+	if root.Prog != c04BodyProg {
+		c04BodyProg = root.Prog
+		c04BodyCache = map[*ssa.Function]*c04Body{}
+	}
+	if b, ok := c04BodyCache[root]; ok {
+		return b
+	}
+	b := &c04Body{}
+	var build func(fn *ssa.Function, call ssa.CallInstruction, parent *c04Frame, depth int) *c04Frame
+	build = func(fn *ssa.Function, call ssa.CallInstruction, parent *c04Frame, depth int) *c04Frame {
+		fr := &c04Frame{fn: fn, call: call, parent: parent, kids: map[ssa.CallInstruction]*c04Frame{}, depth: depth}
+		b.frames = append(b.frames, fr)
+		if depth >= c04MaxFrameDepth {
+			return fr
+		}
+		for _, c := range CallsIn(fn, false) {
+			if c.Value() == nil {
+				continue // go / defer: no ordering carries over
+			}
+			cal := c.Callee()
+			if !c04IsHelper(cal) {
+				continue
+			}
+			rec := false
+			for a := fr; a != nil; a = a.parent {
+				if a.fn == cal {
+					rec = true
+				}
+			}
+			if rec {
+				continue
+			}
+			fr.kids[c.Instr] = build(cal, c.Instr, fr, depth+1)
+		}
+		return fr
+	}
+	b.root = build(root, nil, nil, 0)
+	c04BodyCache[root] = b
+	return b
+}
+
+// has: fn runs as part of the body.
+func (b *c04Body) has(fn *ssa.Function) bool {
+	for _, fr := range b.frames {
+		if fr.fn == fn {
+			return true
+		}
+	}
+	return false
+}
+
+func (b *c04Body) framesOf(fn *ssa.Function) []*c04Frame {
+	var out []*c04Frame
+	for _, fr := range b.frames {
+		if fr.fn == fn {
+			out = append(out, fr)
+		}
+	}
+	return out
+}
+
+// calls lists every call instruction of every frame that satisfies pred.
+func (b *c04Body) calls(pred func(c CallSite) bool) []c04Site {
+	var out []c04Site
+	for _, fr := range b.frames {
+		for _, c := range CallsIn(fr.fn, false) {
+			if pred == nil || pred(c) {
+				out = append(out, c04Site{fr, c.Instr})
+			}
+		}
+	}
+	return out
+}
+
+// instrs visits every instruction of every frame.
+func (b *c04Body) instrs(visit func(fr *c04Frame, in ssa.Instruction)) {
+	for _, fr := range b.frames {
+		for _, blk := range fr.fn.Blocks {
+			for _, in := range blk.Instrs {
+				visit(fr, in)
+			}
+		}
+	}
+}
+
+// at lifts the site to ancestor frame anc: the instruction of anc.fn on the
+// call chain that leads to the site (the site itself when it is in anc).
+func (s c04Site) at(anc *c04Frame) ssa.Instruction {
+	in := s.in
+	for f := s.fr; f != nil; f = f.parent {
+		if f == anc {
+			return in
+		}
+		in = f.call
+	}
+	return nil
+}
+
+func c04CommonFrame(a, b *c04Frame) *c04Frame {
+	for a.depth > b.depth {
+		a = a.parent
+	}
+	for b.depth > a.depth {
+		b = b.parent
+	}
+	for a != b {
+		a, b = a.parent, b.parent
+	}
+	return a
+}
+
+// guar: what a return of frame f's function guarantees about step a (which
+// lies in f or in a helper below it): "all" — every return is reached only
+// after a was executed (and, with succ, succeeded); "succ" — every return that
+// may report success (error result possibly nil) is; "" — neither.
+func (b *c04Body) guar(f *c04Frame, a c04Site, succ bool) string {
+	inner := a.at(f)
+	below := "self"
+	if f != a.fr {
+		kid := a.fr
+		for kid.parent != f {
+			kid = kid.parent
+		}
+		below = b.guar(kid, a, succ)
+		if below == "" {
+			return ""
+		}
+	}
+	call, isCall := inner.(*ssa.Call)
+	var aliases []ssa.Value
+	if isCall {
+		aliases, _, _ = c04ErrAliases(call)
+	}
+	needSucc := below == "succ" || below == "self" && succ
+	if needSucc && !isCall {
+		return "" // deferred or spawned
+	}
+	check := func(at ssa.Instruction) bool {
+		if needSucc {
+			k, _ := c04SuccessAt(call, at)
+			return k
+		}
+		return Precedes(inner, at)
+	}
+	all := true
+	for _, ri := range Returns(f.fn) {
+		if !check(ri.Ret) {
+			all = false
+		}
+	}
+	if all {
+		return "all"
+	}
+	if ErrResultIndex(f.fn) < 0 {
+		return ""
+	}
+	for _, nr := range MaybeNilErrorReturns(f.fn) {
+		own := false
+		if needSucc {
+			for _, v := range aliases {
+				if v != nil && (v == nr.Val || sameOrigin(v, nr.Val)) {
+					own = true // returns the step's own error: nil only if it succeeded
+				}
+			}
+		}
+		if !own && !check(nr.From.Instrs[len(nr.From.Instrs)-1]) {
+			return ""
+		}
+	}
+	return "succ"
+}
+
+// ordered: on every path to site s, step p has been executed (succ: and
+// succeeded). Both are lifted to their deepest common frame; a step inside a
+// helper counts when the helper guarantees it on all its returns, or on its
+// successful returns and s is on the success edge of the helper call.
+func (b *c04Body) ordered(p, s c04Site, succ bool) (bool, string) {
+	anc := c04CommonFrame(p.fr, s.fr)
+	pa, sa := p.at(anc), s.at(anc)
+	if pa == nil || sa == nil {
+		return false, "the two sites are not in one effective body"
+	}
+	mode := "all"
+	if p.fr == anc {
+		if succ {
+			mode = "succ"
+		}
+	} else {
+		kid := p.fr
+		for kid.parent != anc {
+			kid = kid.parent
+		}
+		mode = b.guar(kid, p, succ)
+		if mode == "" {
+			return false, fmt.Sprintf("%s may return (successfully) where the step has not been executed successfully", FuncKey(kid.fn))
+		}
+	}
+	if mode == "all" {
+		if !Precedes(pa, sa) {
+			return false, "the call does not lie on every path to the site"
+		}
+		return true, ""
+	}
+	call, ok := pa.(*ssa.Call)
+	if !ok {
+		return false, "the step is deferred or spawned"
+	}
+	return c04SuccessAt(call, sa)
+}
+
+// successAt: on every path to site s, step p has been executed and succeeded.
+func (b *c04Body) successAt(p, s c04Site) (bool, string) { return b.ordered(p, s, true) }
+
+// precedes: a executes before s on every path to s.
+func (b *c04Body) precedes(a, s c04Site) bool {
+	k, _ := b.ordered(a, s, false)
+	return k
+}
+
+// mayFollow: `to` can execute after `from` (over-approximation).
+func (b *c04Body) mayFollow(from, to c04Site) bool {
+	anc := c04CommonFrame(from.fr, to.fr)
+	fa, ta := from.at(anc), to.at(anc)
+	if fa == nil || ta == nil {
+		return false
+	}
+	return ReachableFrom(fa, nil)[ta]
+}
+
+// c04Fact is a branch fact with the frame its values live in.
+type c04Fact struct {
+	CondFact
+	fr *c04Frame
+}
+
+// factsAt: the branch conditions known at the site: those of its own
+// function and those known at each call on the chain that leads to it.
+func (b *c04Body) factsAt(s c04Site) []c04Fact {
+	var out []c04Fact
+	in := s.in
+	for f := s.fr; f != nil; f = f.parent {
+		for _, cf := range FactsAt(in.Block()) {
+			out = append(out, c04Fact{cf, f})
+		}
+		in = f.call
+	}
+	return out
+}
+
+// factAt: a branch fact accepted by pred is known at the site: among the
+// facts of its own function and of the calls on the chain that leads to it, or
+// established by a helper called before it that only returns (successfully,
+// with the site on the success edge of that call) under the fact.
+func (b *c04Body) factAt(at c04Site, pred func(fr *c04Frame, cond ssa.Value, val bool) bool, depth int) bool {
+	return b.factAtAbove(at, nil, pred, depth)
+}
+
+// factAtAbove: factAt that looks no higher than frame floor (nil: up to the root).
+func (b *c04Body) factAtAbove(at c04Site, floor *c04Frame, pred func(fr *c04Frame, cond ssa.Value, val bool) bool, depth int) bool {
+	in := at.in
+	for f := at.fr; f != nil; f = f.parent {
+		for _, cf := range FactsAt(in.Block()) {
+			if pred(f, cf.Cond, cf.Val) {
+				return true
+			}
+		}
+		if f == floor {
+			break
+		}
+		in = f.call
+	}
+	if depth > c04MaxFrameDepth {
+		return false
+	}
+	for f := at.fr; f != nil; f = f.parent {
+		lifted := at.at(f)
+		for ci, kid := range f.kids {
+			call, isCall := ci.(*ssa.Call)
+			if !isCall || ssa.Instruction(call) == lifted {
+				continue
+			}
+			var rets []ssa.Instruction
+			if ErrResultIndex(kid.fn) >= 0 {
+				if k, _ := c04SuccessAt(call, lifted); !k {
+					continue
+				}
+				for _, nr := range MaybeNilErrorReturns(kid.fn) {
+					rets = append(rets, nr.From.Instrs[len(nr.From.Instrs)-1])
+				}
+			} else {
+				if !Precedes(call, lifted) {
+					continue
+				}
+				for _, ri := range Returns(kid.fn) {
+					rets = append(rets, ri.Ret)
+				}
+			}
+			all := len(rets) > 0
+			for _, ret := range rets {
+				// inside the helper only: what is known where it returns
+				if !b.factAtAbove(c04Site{kid, ret}, kid, pred, depth+1) {
+					all = false
+					break
+				}
+			}
+			if all {
+				return true
+			}
+		}
+		if f == floor {
+			break
+		}
+	}
+	return false
+}
+
+// inLoop: the site, or a call on the chain that leads to it, is in a loop.
+func (s c04Site) inLoop() bool {
+	in := s.in
+	for f := s.fr; f != nil; f = f.parent {
+		if inLoop(in.Block()) {
+			return true
+		}
+		in = f.call
+	}
+	return false
+}
+
+// c04Up resolves a value of frame fr to what it denotes further up: a
+// parameter of a helper stands for the caller's argument (repeatedly). The
+// returned frame is the one the returned value lives in.
+func c04Up(fr *c04Frame, v ssa.Value) (*c04Frame, ssa.Value) {
+	for i := 0; i < 2*c04MaxFrameDepth && v != nil && fr != nil; i++ {
+		prm, ok := originValue(v).(*ssa.Parameter)
+		if !ok {
+			return fr, v
+		}
+		// the activation that owns the parameter (the frame itself, or an
+		// enclosing function's frame when a literal reads a captured parameter)
+		own := fr
+		for own != nil && own.fn != prm.Parent() {
+			own = own.parent
+		}
+		if own == nil || own.parent == nil {
+			return fr, v
+		}
+		args := own.call.Common().Args
+		idx := -1
+		for j, fp := range own.fn.Params {
+			if fp == prm {
+				idx = j
+			}
+		}
+		if idx < 0 || len(args) != len(own.fn.Params) {
+			return fr, v
+		}
+		fr, v = own.parent, args[idx]
+	}
+	return fr, v
+}
+
+// c04SameIn: the two values (each in its frame) denote the same run-time value.
+func c04SameIn(fa *c04Frame, a ssa.Value, fb *c04Frame, b ssa.Value) bool {
+	fa, a = c04Up(fa, a)
+	fb, b = c04Up(fb, b)
+	if !sameOrigin(a, b) {
+		return false
+	}
+	if fa == fb {
+		return true
+	}
+	switch originValue(a).(type) {
+	case *ssa.Const, *ssa.Global:
+		return true
+	}
+	return false
+}
+
+// argsOf: the caller-side arguments a parameter stands for, over all frames
+// of its function in the body (context-insensitive; for may-analyses).
+func (b *c04Body) argsOf(prm *ssa.Parameter) []ssa.Value {
+	var out []ssa.Value
+	if b == nil {
+		return nil
+	}
+	for _, fr := range b.frames {
+		if fr.fn != prm.Parent() || fr.parent == nil {
+			continue
+		}
+		args := fr.call.Common().Args
+		if len(args) != len(fr.fn.Params) {
+			continue
+		}
+		for j, fp := range fr.fn.Params {
+			if fp == prm {
+				out = append(out, args[j])
+			}
+		}
+	}
+	return out
+}
+
+// resultsOf: when v is (a result of) a call that enters a helper of the body,
+// the values the helper returns at that position.
+func (b *c04Body) resultsOf(v ssa.Value) (vals []ssa.Value, ok bool) {
+	if b == nil {
+		return nil, false
+	}
+	idx := 0
+	call, isCall := v.(*ssa.Call)
+	if ex, isEx := v.(*ssa.Extract); isEx {
+		call, isCall = ex.Tuple.(*ssa.Call)
+		idx = ex.Index
+	}
+	if !isCall {
+		return nil, false
+	}
+	var callee *ssa.Function
+	for _, fr := range b.frames {
+		if k := fr.kids[call]; k != nil {
+			callee = k.fn
+		}
+	}
+	if callee == nil {
+		return nil, false
+	}
+	for _, ri := range Returns(callee) {
+		if idx < len(ri.Results) {
+			vals = append(vals, ri.Results[idx])
+		}
+	}
+	return vals, len(vals) > 0
+}
+
+// c04OnlyCalledFrom: every activation of f is (transitively) entered from a
+// function accepted by ok: f itself is accepted, or f is a helper that is
+// never used through an interface and all of whose static callers are. A use
+// of f as a function value disqualifies it, unless valueUses is set, in which
+// case the function that takes the value counts as a caller (good enough for
+// "on whose behalf does this code run", not for ordering). Returns the
+// offending caller otherwise.
+func c04OnlyCalledFrom(p *Program, f *ssa.Function, ok func(*ssa.Function) bool, depth int) (bool, string) {
+	return c04OnlyCalledFromOpt(p, f, ok, depth, false)
+}
+
+func c04OnlyCalledFromOpt(p *Program, f *ssa.Function, ok func(*ssa.Function) bool, depth int, valueUses bool) (bool, string) {
+	if ok(f) || ok(TopFunc(f)) {
+		return true, ""
+	}
+	if depth > c04MaxFrameDepth {
+		return false, "call chain too deep"
+	}
+	if f.Parent() != nil {
+		// a literal: runs on behalf of the function that declares it
+		return c04OnlyCalledFromOpt(p, f.Parent(), ok, depth+1, valueUses)
+	}
+	if !c04IsHelper(f) {
+		return false, FuncKey(f)
+	}
+	uses := p.FuncValueUses(f)
+	if len(uses) > 0 && !valueUses {
+		return false, FuncKey(f) + " (also used as a function value)"
+	}
+	if len(p.InvokeSites(f)) > 0 {
+		return false, FuncKey(f) + " (also callable through an interface)"
+	}
+	callers := p.StaticCallers(f)
+	if len(callers)+len(uses) == 0 {
+		return false, FuncKey(f) + " (no caller)"
+	}
+	for _, c := range callers {
+		if k, who := c04OnlyCalledFromOpt(p, c.Fn, ok, depth+1, valueUses); !k {
+			return false, who
+		}
+	}
+	for _, u := range uses {
+		if k, who := c04OnlyCalledFromOpt(p, u.Parent(), ok, depth+1, valueUses); !k {
+			return false, who
+		}
+	}
+	return true, ""
+}
+
+// c04InAllContexts evaluates a check on a site of function f in every context
+// f runs in: in f's own effective body; failing that, if f is a helper (not
+// used as a value or through an interface), in the effective body of each of
+// its static callers, where facts and steps of the caller count; and so on
+// upwards. check gets the body and the frame of f in it.
+func c04InAllContexts(p *Program, f *ssa.Function, check func(b *c04Body, fr *c04Frame) (bool, string)) (bool, string) {
+	var try func(root *ssa.Function, path []ssa.CallInstruction, depth int) (bool, string)
+	try = func(root *ssa.Function, path []ssa.CallInstruction, depth int) (bool, string) {
+		b := c04BodyOf(root)
+		fr := b.root
+		for _, ci := range path {
+			if fr = fr.kids[ci]; fr == nil {
+				return false, "the call chain from " + FuncKey(root) + " is not followed (deferred, spawned or too deep)"
+			}
+		}
+		ok, why := check(b, fr)
+		if ok {
+			return true, why
+		}
+		if depth >= c04MaxFrameDepth-1 || !c04IsHelper(root) || root.Parent() != nil {
+			return false, why
+		}
+		callers := p.StaticCallers(root)
+		if len(callers) == 0 || len(p.FuncValueUses(root)) > 0 || len(p.InvokeSites(root)) > 0 {
+			return false, why
+		}
+		for _, c := range callers {
+			if k, w := try(c.Fn, append([]ssa.CallInstruction{c.Instr}, path...), depth+1); !k {
+				return false, w + " (reached from " + FuncKey(c.Fn) + ")"
+			}
+		}
+		return true, "holds in the context of every caller of " + FuncKey(root)
+	}
+	return try(f, nil, 0)
+}
 
 // ---------------------------------------------------------------------------
 // string shapes (H6): what a key/value expression renders to
@@ -529,7 +1139,19 @@ func c04Merge(toks []c04Tok) []c04Tok {
 // c04Shape evaluates a string-typed SSA value to a token sequence; err != ""
 // when some part cannot be followed.
 func c04Shape(v ssa.Value, depth int) (toks []c04Tok, err string) {
-	if depth > 4 {
+	return c04ShapeEnv(v, depth, nil)
+}
+
+// c04Prog: the program being analysed (set by c04RowWriters; c04Shape needs the
+// static callers of a helper to render a parameter).
+var c04Prog *Program
+
+// c04ShapeEnv: env binds parameters of a helper whose result is being rendered
+// to the arguments of the call under evaluation. A parameter of a helper that
+// is not bound renders as what its static callers pass, when they all pass the
+// same shape (the Val of a hole is kept only when there is a single caller).
+func c04ShapeEnv(v ssa.Value, depth int, env map[*ssa.Parameter]ssa.Value) (toks []c04Tok, err string) {
+	if depth > 5 {
 		return nil, "shape nesting too deep"
 	}
 	v = originValue(v)
@@ -538,8 +1160,19 @@ func c04Shape(v ssa.Value, depth int) (toks []c04Tok, err string) {
 	}
 	hole := func(verb byte, x ssa.Value) []c04Tok {
 		x = c04StripIfaceOnly(x)
+		if prm, isPrm := originValue(x).(*ssa.Parameter); isPrm {
+			if a, bound := env[prm]; bound {
+				x = c04StripIfaceOnly(a)
+			}
+		}
 		if s, ok := ConstString(x); ok && (verb == 's' || verb == 'v') {
 			return []c04Tok{{Lit: s}}
+		}
+		if b, isB := x.Type().Underlying().(*types.Basic); isB && b.Info()&types.IsString != 0 && (verb == 's' || verb == 'v') {
+			// a string argument rendered verbatim: its own shape, when it can be followed
+			if ts, e := c04ShapeEnv(x, depth+1, env); e == "" {
+				return ts
+			}
 		}
 		return []c04Tok{{Hole: true, Verb: verb, Type: x.Type(), Val: x}}
 	}
@@ -548,16 +1181,50 @@ func c04Shape(v ssa.Value, depth int) (toks []c04Tok, err string) {
 		if x.Op != token.ADD {
 			return nil, "non-concatenation operator " + x.Op.String()
 		}
-		a, e := c04Shape(x.X, depth)
+		a, e := c04ShapeEnv(x.X, depth, env)
 		if e != "" {
 			return nil, e
 		}
-		b, e := c04Shape(x.Y, depth)
+		b, e := c04ShapeEnv(x.Y, depth, env)
 		if e != "" {
 			return nil, e
 		}
 		return c04Merge(append(append([]c04Tok{}, a...), b...)), ""
 	case *ssa.Parameter:
+		if a, ok := env[x]; ok {
+			return c04ShapeEnv(a, depth+1, nil)
+		}
+		if f := x.Parent(); c04Prog != nil && c04IsHelper(f) && len(c04Prog.FuncValueUses(f)) == 0 {
+			callers := c04Prog.StaticCallers(f)
+			var first []c04Tok
+			ok := len(callers) > 0
+			for _, c := range callers {
+				args := c.Common().Args
+				if len(args) != len(f.Params) {
+					ok = false
+					break
+				}
+				for i, fp := range f.Params {
+					if fp != x {
+						continue
+					}
+					ts, e := c04ShapeEnv(args[i], depth+1, nil)
+					if e != "" || first != nil && c04Sig(ts) != c04Sig(first) {
+						ok = false
+					} else if first == nil {
+						first = ts
+					}
+				}
+			}
+			if ok && first != nil {
+				if len(callers) > 1 {
+					for i := range first {
+						first[i].Val = nil
+					}
+				}
+				return first, ""
+			}
+		}
 		return []c04Tok{{Hole: true, Verb: 's', Type: x.Type(), Val: x}}, ""
 	case *ssa.Call:
 		c := CallSite{x.Parent(), x}
@@ -612,23 +1279,26 @@ func c04Shape(v ssa.Value, depth int) (toks []c04Tok, err string) {
 		if f := c.Callee(); f != nil && InModule(f) && f.Blocks != nil {
 			rets := Returns(f)
 			if len(rets) == 1 && len(rets[0].Results) == 1 {
-				inner, e := c04Shape(rets[0].Results[0], depth+1)
+				// parameters of the helper denote this call's arguments; other
+				// holes are values of the callee's frame and have no meaning in
+				// the caller
+				bind := map[*ssa.Parameter]ssa.Value{}
+				if !x.Call.IsInvoke() && len(f.Params) == len(x.Call.Args) {
+					for pi, fp := range f.Params {
+						bind[fp] = c04StripIfaceOnly(x.Call.Args[pi])
+					}
+				}
+				inner, e := c04ShapeEnv(rets[0].Results[0], depth+1, bind)
 				if e != "" {
 					return nil, e
 				}
-				// holes that render a parameter of the helper denote the
-				// caller's argument; other holes are values of the callee's
-				// frame and have no meaning in the caller
 				for i := range inner {
-					var mapped ssa.Value
-					if prm, isPrm := inner[i].Val.(*ssa.Parameter); isPrm && !x.Call.IsInvoke() && len(f.Params) == len(x.Call.Args) {
-						for pi, fp := range f.Params {
-							if fp == prm {
-								mapped = c04StripIfaceOnly(x.Call.Args[pi])
-							}
-						}
+					if in, isIn := inner[i].Val.(ssa.Instruction); isIn && in.Parent() == f {
+						inner[i].Val = nil
 					}
-					inner[i].Val = mapped
+					if prm, isPrm := inner[i].Val.(*ssa.Parameter); isPrm && prm.Parent() == f {
+						inner[i].Val = nil
+					}
 				}
 				return inner, ""
 			}
@@ -698,6 +1368,7 @@ func c04IsSortedSet(c CallSite) (batch, ok bool) {
 }
 
 func c04RowWriters(p *Program, r *Reporter) []*c04Writer {
+	c04Prog = p
 	var out []*c04Writer
 	for _, fn := range p.FuncsIn(c04Rel) {
 		for _, c := range CallsIn(fn, false) {
@@ -722,24 +1393,36 @@ func c04RowWriters(p *Program, r *Reporter) []*c04Writer {
 // ---------------------------------------------------------------------------
 // Z-order
 
-// c04LargeReceives lists the calls in fn that store a blob into 'large':
+// c04LargeReceives lists the calls in the body that store a blob into 'large':
 // blobserver.Receive*/ReceiveNoHash with 'large' as destination, or
 // large.ReceiveBlob. ref/reader are the blob ref and source arguments.
 type c04Recv struct {
 	c           CallSite
 	ref, reader ssa.Value
+	site        c04Site
 }
 
-func c04LargeReceives(fn *ssa.Function) []c04Recv {
+// c04RoleIn is c04Role for a value of a frame: a helper's parameter has the
+// role of the caller's argument.
+func c04RoleIn(fr *c04Frame, v ssa.Value) string {
+	if ro := c04Role(v); ro != "" {
+		return ro
+	}
+	_, u := c04Up(fr, c04Strip(v))
+	return c04Role(u)
+}
+
+func c04LargeReceives(body *c04Body) []c04Recv {
 	var out []c04Recv
-	for _, c := range CallsIn(fn, false) {
+	for _, s := range body.calls(nil) {
+		c := s.call()
 		if c.Value() == nil {
 			continue
 		}
 		cc := c.Common()
 		if cc.IsInvoke() {
-			if cc.Method.Name() == "ReceiveBlob" && c04Role(cc.Value) == "large" && len(cc.Args) == 3 {
-				out = append(out, c04Recv{c, cc.Args[1], cc.Args[2]})
+			if cc.Method.Name() == "ReceiveBlob" && c04RoleIn(s.fr, cc.Value) == "large" && len(cc.Args) == 3 {
+				out = append(out, c04Recv{c, cc.Args[1], cc.Args[2], s})
 			}
 			continue
 		}
@@ -749,14 +1432,14 @@ func c04LargeReceives(fn *ssa.Function) []c04Recv {
 		}
 		dst := -1
 		for i, a := range cc.Args {
-			if c04Role(a) == "large" {
+			if c04RoleIn(s.fr, a) == "large" {
 				dst = i
 			}
 		}
 		if dst < 0 {
 			continue
 		}
-		rc := c04Recv{c: c}
+		rc := c04Recv{c: c, site: s}
 		for _, a := range cc.Args[dst+1:] {
 			if c04IsRef(a.Type()) && rc.ref == nil {
 				rc.ref = a
@@ -776,10 +1459,52 @@ func c04MetaInvokes(fn *ssa.Function, method string) []CallSite {
 	})
 }
 
-func c04SmallRemoves(fn *ssa.Function) []CallSite {
+// c04RoleInvokes: the interface calls of `method` on the store of that role, over the body.
+func c04RoleInvokes(body *c04Body, role, method string) []c04Site {
+	var out []c04Site
+	for _, s := range body.calls(nil) {
+		cc := s.call().Common()
+		if cc.IsInvoke() && cc.Method.Name() == method && c04RoleIn(s.fr, cc.Value) == role {
+			out = append(out, s)
+		}
+	}
+	return out
+}
+
+// c04RoleAnywhere: the role of the receiver of an interface call in an
+// arbitrary function of the package: the field it is loaded from, or, for a
+// parameter of a helper, the roles of what its static callers pass.
+func c04RoleAnywhere(p *Program, v ssa.Value, depth int) map[string]bool {
+	out := map[string]bool{}
+	if ro := c04Role(v); ro != "" {
+		out[ro] = true
+		return out
+	}
+	prm, ok := originValue(c04Strip(v)).(*ssa.Parameter)
+	if !ok || depth > c04MaxFrameDepth || !c04IsHelper(prm.Parent()) {
+		return out
+	}
+	f := prm.Parent()
+	for _, c := range p.StaticCallers(f) {
+		args := c.Common().Args
+		if len(args) != len(f.Params) {
+			continue
+		}
+		for i, fp := range f.Params {
+			if fp == prm {
+				for ro := range c04RoleAnywhere(p, args[i], depth+1) {
+					out[ro] = true
+				}
+			}
+		}
+	}
+	return out
+}
+
+func c04SmallRemoves(p *Program, fn *ssa.Function) []CallSite {
 	return FindCalls(fn, false, func(c CallSite) bool {
 		cc := c.Common()
-		return cc.IsInvoke() && cc.Method.Name() == "RemoveBlobs" && c04Role(cc.Value) == "small"
+		return cc.IsInvoke() && cc.Method.Name() == "RemoveBlobs" && c04RoleAnywhere(p, cc.Value, 0)["small"]
 	})
 }
 
@@ -790,22 +1515,31 @@ func c04ZOrder(p *Program, r *Reporter, writers []*c04Writer) {
 	reindex := p.Func(c04Rel, "storage", "reindex")
 	clientRemove := p.Func(c04Rel, "storage", "RemoveBlobs")
 	key := FuncKey(fn)
+	body := c04BodyOf(fn)
+	packBody := c04BodyOf(pack)
+	r.Analysed("writeAZip_effective_body_frames", len(body.frames))
 
-	recvs := c04LargeReceives(fn)
-	commits := c04MetaInvokes(fn, "CommitBatch")
-	removes := c04SmallRemoves(fn)
+	recvs := c04LargeReceives(body)
+	commits := c04RoleInvokes(body, "meta", "CommitBatch")
+	removes := c04RoleInvokes(body, "small", "RemoveBlobs")
 	if len(recvs) == 0 {
 		r.Violation(rule, key+"#large-receive", p.Pos(fn.Pos()), "writeAZip no longer stores the zip into the 'large' store (no blobserver.Receive*/ReceiveBlob with s.large as destination): rows would point to a zip that was never written")
 	}
 	if len(commits) == 0 {
 		r.Violation(rule, key+"#meta-commit", p.Pos(fn.Pos()), "writeAZip no longer commits a meta batch: packed blobs would be removed from small without any row mapping them")
 	}
-	afterRecv := func(site ssa.Instruction) (bool, string) {
+	where := func(s c04Site) string {
+		if s.fr == body.root {
+			return fmt.Sprintf("line %d", c04Line(p, s.in.Pos()))
+		}
+		return fmt.Sprintf("line %d in %s", c04Line(p, s.in.Pos()), FuncKey(s.fr.fn))
+	}
+	afterRecv := func(site c04Site) (bool, string) {
 		why := "no receive into large"
 		for _, rc := range recvs {
-			ok, w := c04SuccessAt(rc.c.Value(), site)
+			ok, w := body.successAt(rc.site, site)
 			if ok {
-				return true, fmt.Sprintf("on the err==nil edge of %s (line %d)", rc.c.CalleeKey(), c04Line(p, rc.c.Pos()))
+				return true, fmt.Sprintf("on the err==nil edge of %s (%s)", rc.c.CalleeKey(), where(rc.site))
 			}
 			why = w
 		}
@@ -815,84 +1549,94 @@ func c04ZOrder(p *Program, r *Reporter, writers []*c04Writer) {
 	for _, rm := range removes {
 		ok, why := false, "no meta CommitBatch in the function"
 		for _, cm := range commits {
-			if cm.Value() == nil {
+			if cm.call().Value() == nil {
 				continue
 			}
-			if k, w := c04SuccessAt(cm.Value(), rm.Instr); k {
+			if k, w := body.successAt(cm, rm); k {
 				ok = true
-				why = fmt.Sprintf("small.RemoveBlobs is on the err==nil edge of meta.CommitBatch (line %d)", c04Line(p, cm.Pos()))
+				why = fmt.Sprintf("small.RemoveBlobs is on the err==nil edge of meta.CommitBatch (%s)", where(cm))
 				break
 			} else {
 				why = w
 			}
 		}
-		r.Check(ok, rule, key+"#small.RemoveBlobs-after-commit", p.Pos(rm.Pos()), why,
+		r.Check(ok, rule, key+"#small.RemoveBlobs-after-commit", p.Pos(rm.in.Pos()), why,
 			"loose blobs are removed from small where the meta batch mapping them into the zip is not known committed ("+why+"): a failed or skipped commit leaves the blobs unreachable")
 	}
 	// (b) every commit / direct meta write is on the success edge of the large receive
 	for _, cm := range commits {
-		ok, why := afterRecv(cm.Instr)
-		r.Check(ok, rule, key+"#meta.CommitBatch-after-large-receive", p.Pos(cm.Pos()), "meta.CommitBatch "+why,
+		ok, why := afterRecv(cm)
+		r.Check(ok, rule, key+"#meta.CommitBatch-after-large-receive", p.Pos(cm.in.Pos()), "meta.CommitBatch "+why,
 			"the meta batch is committed where the zip is not known stored in large ("+why+"): rows would name a zip that does not exist")
 	}
 	for _, m := range []string{"Set", "Delete"} {
-		for _, c := range c04MetaInvokes(fn, m) {
-			ok, why := afterRecv(c.Instr)
-			r.Check(ok, rule, key+"#meta."+m+"-after-large-receive", p.Pos(c.Pos()), "direct meta write "+why,
+		for _, c := range c04RoleInvokes(body, "meta", m) {
+			ok, why := afterRecv(c)
+			r.Check(ok, rule, key+"#meta."+m+"-after-large-receive", p.Pos(c.in.Pos()), "direct meta write "+why,
 				"a direct meta write happens where the zip is not known stored in large ("+why+")")
 		}
 	}
 	// (c) rows of the batch: put into a batch that is committed afterwards, and naming the received zip ref
 	nRows := 0
 	for _, w := range writers {
-		if w.c.Fn != fn || !w.batch {
+		if !w.batch {
 			continue
 		}
-		nRows++
-		construct := key + "#row " + w.kind
-		if w.keyErr != "" || w.valErr != "" {
-			r.Undecided(rule, construct, p.Pos(w.c.Pos()), "row shape cannot be followed: "+w.keyErr+" "+w.valErr)
-			continue
-		}
-		committed := false
-		for _, cm := range commits {
-			if len(cm.Common().Args) == 1 && sameOrigin(cm.Common().Args[0], w.c.Common().Value) && ReachableFrom(w.c.Instr, nil)[cm.Instr] {
-				committed = true
-			}
-		}
-		if !committed {
-			r.Violation(rule, construct, p.Pos(w.c.Pos()), "row is set on a batch that is not passed to meta.CommitBatch afterwards")
-			continue
-		}
-		named := false
-		for _, t := range append(append([]c04Tok{}, w.key...), w.val...) {
-			if !t.Hole || t.class() != "ref" || t.Val == nil {
+		for _, fr := range body.framesOf(w.c.Fn) {
+			ws := c04Site{fr, w.c.Instr}
+			nRows++
+			construct := key + "#row " + w.kind
+			if w.keyErr != "" || w.valErr != "" {
+				r.Undecided(rule, construct, p.Pos(w.c.Pos()), "row shape cannot be followed: "+w.keyErr+" "+w.valErr)
 				continue
 			}
-			for _, rc := range recvs {
-				if rc.ref != nil && sameOrigin(t.Val, rc.ref) {
-					named = true
-				}
-				call := rc.c.Value()
-				if c04Depends(t.Val, func(x ssa.Value) bool { return x == ssa.Value(call) }) {
-					named = true
+			committed := false
+			for _, cm := range commits {
+				args := cm.call().Common().Args
+				if len(args) == 1 && c04SameIn(cm.fr, args[0], fr, w.c.Common().Value) && body.mayFollow(ws, cm) {
+					committed = true
 				}
 			}
+			if !committed {
+				r.Violation(rule, construct, p.Pos(w.c.Pos()), "row is set on a batch that is not passed to meta.CommitBatch afterwards")
+				continue
+			}
+			named := false
+			for _, t := range append(append([]c04Tok{}, w.key...), w.val...) {
+				if !t.Hole || t.class() != "ref" || t.Val == nil {
+					continue
+				}
+				for _, rc := range recvs {
+					if rc.ref != nil && c04SameIn(fr, t.Val, rc.site.fr, rc.ref) {
+						named = true
+					}
+					// the receive itself, or the helper call through which it is performed
+					chain := map[ssa.Value]bool{}
+					for f := rc.site.fr; f != nil; f = f.parent {
+						if v, isV := rc.site.at(f).(ssa.Value); isV {
+							chain[v] = true
+						}
+					}
+					if c04DependsIn(body, t.Val, func(x ssa.Value) bool { return chain[x] }, false) {
+						named = true
+					}
+				}
+			}
+			r.Check(named, rule, construct, p.Pos(w.c.Pos()),
+				"row is committed with the batch and names the ref under which the zip was received into large",
+				"no blob-ref field of this row is the ref passed to (or returned by) the receive of the zip into large: the row maps to a different blob than the zip just written")
 		}
-		r.Check(named, rule, construct, p.Pos(w.c.Pos()),
-			"row is committed with the batch and names the ref under which the zip was received into large",
-			"no blob-ref field of this row is the ref passed to (or returned by) the receive of the zip into large: the row maps to a different blob than the zip just written")
 	}
 	// (c') the refs removed from small are refs the committed batch maps with b: rows
 	bKind := c04StrConst(p, "blobMetaPrefix") + "<ref>"
 	mapped := map[string]ssa.Value{}
 	for _, w := range writers {
-		if w.c.Fn != fn || !w.batch || w.kind != bKind {
+		if !body.has(w.c.Fn) || !w.batch || w.kind != bKind {
 			continue
 		}
 		for _, t := range w.key {
 			if t.Hole && t.class() == "ref" && t.Val != nil {
-				for k, v := range c04ValueLeaves(fn, t.Val) {
+				for k, v := range c04ValueLeaves(body, w.c.Fn, t.Val) {
 					mapped[k] = v
 				}
 			}
@@ -901,18 +1645,18 @@ func c04ZOrder(p *Program, r *Reporter, writers []*c04Writer) {
 	for _, rm := range removes {
 		construct := key + "#small.RemoveBlobs-refs-mapped"
 		var arg ssa.Value
-		for _, a := range rm.Common().Args {
+		for _, a := range rm.call().Common().Args {
 			if c04IsRefSlice(a.Type()) {
 				arg = a
 			}
 		}
 		if arg == nil {
-			r.Undecided(rule, construct, p.Pos(rm.Pos()), "no []blob.Ref argument")
+			r.Undecided(rule, construct, p.Pos(rm.in.Pos()), "no []blob.Ref argument")
 			continue
 		}
-		leaves, ok := c04SliceLeaves(fn, arg)
+		leaves, ok := c04SliceLeaves(body, rm.fr.fn, arg)
 		if !ok {
-			r.Violation(rule, construct, p.Pos(rm.Pos()), "the removed refs include a whole slice that is not built, element by element, in this function (for example a field of the packer): nothing relates them to the b: rows of the committed batch, so blobs without a mapping may be removed")
+			r.Violation(rule, construct, p.Pos(rm.in.Pos()), "the removed refs include a whole slice that is not built, element by element, in this function or the helpers it calls (for example a field of the packer): nothing relates them to the b: rows of the committed batch, so blobs without a mapping may be removed")
 			continue
 		}
 		var missing []string
@@ -922,57 +1666,69 @@ func c04ZOrder(p *Program, r *Reporter, writers []*c04Writer) {
 			}
 		}
 		sort.Strings(missing)
-		r.Check(len(missing) == 0 && len(leaves) > 0, rule, construct, p.Pos(rm.Pos()),
+		r.Check(len(missing) == 0 && len(leaves) > 0, rule, construct, p.Pos(rm.in.Pos()),
 			fmt.Sprintf("every ref source of the removed slice (%d) is also a ref source of a b: row key of the committed batch", len(leaves)),
 			fmt.Sprintf("removed refs come from %d source(s) that no b: row of the batch is keyed by: %s", len(missing), strings.Join(missing, ", ")))
 	}
 	// (d) whole-file row: only where the zip loop has exited
 	nWhole := 0
 	wholeKind := c04StrConst(p, "wholeMetaPrefix") + "<ref>"
+	isReindex := func(f *ssa.Function) bool { return f == reindex }
+	isPackOrReindex := func(f *ssa.Function) bool { return f == pack || f == reindex }
+	loops := false
+	for _, s := range packBody.calls(func(c CallSite) bool { return c.Callee() == fn }) {
+		if s.inLoop() {
+			loops = true
+		}
+	}
 	for _, w := range writers {
 		if w.kind != wholeKind {
 			continue
 		}
-		top := TopFunc(w.c.Fn)
-		if top == reindex {
+		if k, _ := c04OnlyCalledFrom(p, w.c.Fn, isReindex, 0); k {
 			continue
 		}
 		nWhole++
 		construct := FuncKey(w.c.Fn) + "#row " + w.kind
-		if top != pack {
-			r.Violation(rule, construct, p.Pos(w.c.Pos()), "the whole-file row w:<wholeref> (which makes OpenWholeRef serve the file) is written outside (*packer).pack and reindex")
+		frames := packBody.framesOf(w.c.Fn)
+		if k, who := c04OnlyCalledFrom(p, w.c.Fn, isPackOrReindex, 0); !k || len(frames) == 0 {
+			if who == "" {
+				who = "code that pack does not call directly"
+			}
+			r.Violation(rule, construct, p.Pos(w.c.Pos()), "the whole-file row w:<wholeref> (which makes OpenWholeRef serve the file) is written outside (*packer).pack and reindex (reachable from "+who+")")
 			continue
 		}
-		ok := false
-		for _, f := range FactsAt(w.c.Block()) {
-			if c04SaysChunksEmpty(f.Cond, f.Val) {
-				ok = true
-			}
+		for _, fr := range frames {
+			ok := packBody.factAt(c04Site{fr, w.c.Instr}, func(_ *c04Frame, cond ssa.Value, val bool) bool { return c04SaysChunksEmpty(cond, val) }, 0)
+			// and some writeAZip call must be able to precede it (the loop exists)
+			r.Check(ok && loops, rule, construct, p.Pos(w.c.Pos()),
+				"whole-file row is written only after the zip loop exited (len(pk.chunksRemain) > 0 known false), every zip of the file having been written by writeAZip",
+				"whole-file row is written where it is not known that all chunks have been written into zips (no dominating loop-exit fact on pk.chunksRemain): a partially packed file would be served as whole")
 		}
-		// and some writeAZip call must be able to precede it (the loop exists)
-		loops := len(FindCalls(pack, false, func(c CallSite) bool { return c.Callee() == fn && inLoop(c.Block()) })) > 0
-		r.Check(ok && loops, rule, construct, p.Pos(w.c.Pos()),
-			"whole-file row is written only after the zip loop exited (len(pk.chunksRemain) > 0 known false), every zip of the file having been written by writeAZip",
-			"whole-file row is written where it is not known that all chunks have been written into zips (no dominating loop-exit fact on pk.chunksRemain): a partially packed file would be served as whole")
 	}
 	if nWhole == 0 {
 		r.Violation(rule, FuncKey(pack)+"#row "+wholeKind, p.Pos(pack.Pos()), "pack no longer writes the whole-file row")
 	}
 	// (e) who may remove from small
 	n := 0
+	isClient := func(f *ssa.Function) bool { return f == clientRemove }
+	isEither := func(f *ssa.Function) bool { return f == fn || f == clientRemove }
 	for _, f := range p.FuncsIn(c04Rel) {
-		for _, c := range c04SmallRemoves(f) {
+		for _, c := range c04SmallRemoves(p, f) {
 			n++
-			top := TopFunc(f)
 			construct := FuncKey(f) + "#small.RemoveBlobs"
-			switch top {
-			case fn:
-				r.OKTable(rule, construct, p.Pos(c.Pos()), "packer removal; ordering checked above")
-			case clientRemove:
+			kClient, _ := c04OnlyCalledFrom(p, f, isClient, 0)
+			kEither, who := c04OnlyCalledFrom(p, f, isEither, 0)
+			switch {
+			case kClient:
 				// client-requested deletion: removing a loose copy on request is always allowed
 				r.OKTable(rule, construct, p.Pos(c.Pos()), "client-requested deletion (the caller asked for these refs to go)")
+			case kEither && body.has(f):
+				r.OKTable(rule, construct, p.Pos(c.Pos()), "packer removal (writeAZip or a helper only it and the client-facing RemoveBlobs call); ordering checked above")
+			case kEither:
+				r.Undecided(rule, construct, p.Pos(c.Pos()), "small.RemoveBlobs is called in code that writeAZip runs deferred, spawned or through more than "+fmt.Sprint(c04MaxFrameDepth)+" nested helpers: its order after the commit is not followed")
 			default:
-				r.Violation(rule, construct, p.Pos(c.Pos()), "small.RemoveBlobs is called outside writeAZip and the client-facing RemoveBlobs: nothing orders this removal after a committed mapping")
+				r.Violation(rule, construct, p.Pos(c.Pos()), "small.RemoveBlobs is called outside writeAZip and the client-facing RemoveBlobs (reachable from "+who+"): nothing orders this removal after a committed mapping")
 			}
 		}
 	}
@@ -1063,35 +1819,113 @@ func c04SaysEmpty(cond ssa.Value, val bool, subject func(ssa.Value) bool) bool {
 // row-state assumptions: what a branch condition says about the row fetched by
 // one getMetaRow call
 
-// c04Lookup is one `m, err := s.getMetaRow(ref)` call.
+// c04Lookup is one `m, err := s.getMetaRow(ref)` call in an effective body.
 type c04Lookup struct {
+	body  *c04Body
+	site  c04Site
 	call  *ssa.Call
-	ref   ssa.Value   // the looked-up ref
-	row   ssa.Value   // extract #0 (the meta value), may be nil
-	cells []ssa.Value // locals the row is stored to
+	ref   ssa.Value          // the looked-up ref (a value of site.fr)
+	row   ssa.Value          // extract #0 (the meta value), may be nil
+	cells map[ssa.Value]bool // locals (of any function of the body) that hold the row
 }
 
-func c04Lookups(p *Program, fn *ssa.Function) []*c04Lookup {
+func c04Lookups(p *Program, body *c04Body) []*c04Lookup {
 	gm := p.Func(c04Rel, "storage", "getMetaRow")
 	var out []*c04Lookup
-	for _, c := range CallsIn(fn, false) {
-		if c.Callee() != gm || c.Value() == nil {
-			continue
-		}
-		lk := &c04Lookup{call: c.Value(), ref: c.Common().Args[1]}
+	for _, s := range body.calls(func(c CallSite) bool { return c.Callee() == gm && c.Value() != nil }) {
+		c := s.call()
+		lk := &c04Lookup{body: body, site: s, call: c.Value(), ref: c.Common().Args[1], cells: map[ssa.Value]bool{}}
 		lk.row = ResultValue(c.Value(), 0)
 		if lk.row != nil {
 			if refs := lk.row.Referrers(); refs != nil {
 				for _, u := range *refs {
 					if st, ok := u.(*ssa.Store); ok && st.Val == lk.row {
-						lk.cells = append(lk.cells, st.Addr)
+						lk.cells[st.Addr] = true
 					}
+				}
+			}
+			// copies: a local that is only ever assigned the row (a helper's
+			// parameter spilled to a local, `m2 := m`)
+			for round := 0; round < c04MaxFrameDepth; round++ {
+				grew := false
+				byAddr := map[ssa.Value][]*ssa.Store{}
+				body.instrs(func(fr *c04Frame, in ssa.Instruction) {
+					if st, ok := in.(*ssa.Store); ok {
+						if _, isAl := st.Addr.(*ssa.Alloc); isAl {
+							byAddr[st.Addr] = append(byAddr[st.Addr], st)
+						}
+					}
+				})
+				for addr, sts := range byAddr {
+					if lk.cells[addr] {
+						continue
+					}
+					all := true
+					for _, st := range sts {
+						if !lk.isRowVal(st.Val, 0) {
+							all = false
+						}
+					}
+					if all {
+						lk.cells[addr] = true
+						grew = true
+					}
+				}
+				if !grew {
+					break
 				}
 			}
 		}
 		out = append(out, lk)
 	}
 	return out
+}
+
+// isCell: addr is the address of a local that holds the row (or a pointer
+// parameter of a helper to which every caller passes such an address).
+func (lk *c04Lookup) isCell(addr ssa.Value) bool {
+	if lk.cells[addr] {
+		return true
+	}
+	if prm, ok := addr.(*ssa.Parameter); ok {
+		args := lk.body.argsOf(prm)
+		for _, a := range args {
+			if !lk.isCell(a) {
+				return false
+			}
+		}
+		return len(args) > 0
+	}
+	return false
+}
+
+// isRowVal: v is the row value itself (the lookup's result, a load of a cell,
+// or a parameter of a helper to which every caller passes the row).
+func (lk *c04Lookup) isRowVal(v ssa.Value, depth int) bool {
+	if v == nil || lk.row == nil || depth > c04MaxFrameDepth {
+		return false
+	}
+	if v == lk.row {
+		return true
+	}
+	switch x := v.(type) {
+	case *ssa.UnOp:
+		if x.Op == token.MUL && lk.isCell(x.X) {
+			return true
+		}
+	case *ssa.Parameter:
+		args := lk.body.argsOf(x)
+		for _, a := range args {
+			if !lk.isRowVal(a, depth+1) {
+				return false
+			}
+		}
+		return len(args) > 0
+	}
+	if o := originValue(v); o != v {
+		return lk.isRowVal(o, depth+1)
+	}
+	return false
 }
 
 // rowField reports which field of the looked-up row v reads ("" if none).
@@ -1107,20 +1941,11 @@ func (lk *c04Lookup) rowField(v ssa.Value) string {
 		}
 		return fieldName(fa.X.Type(), fa.Field)
 	case *ssa.Field:
-		if lk.row != nil && (x.X == lk.row || sameOrigin(x.X, lk.row)) {
+		if lk.isRowVal(x.X, 0) {
 			return fieldName(x.X.Type(), x.Field)
 		}
 	}
 	return ""
-}
-
-func (lk *c04Lookup) isCell(addr ssa.Value) bool {
-	for _, c := range lk.cells {
-		if c == addr {
-			return true
-		}
-	}
-	return false
 }
 
 // says interprets a branch condition as a statement about the row:
@@ -1142,7 +1967,7 @@ func (lk *c04Lookup) says(p *Program, cond ssa.Value) (what string, positive boo
 		return "", false
 	}
 	c := CallSite{call.Parent(), call}
-	if c.Callee() == p.Func(c04Rel, "meta", "isPacked") && lk.isCell(call.Call.Args[0]) {
+	if isp := p.LookupFunc(c04Rel, "meta", "isPacked"); isp != nil && c.Callee() == isp && lk.isCell(call.Call.Args[0]) {
 		return "packed", positive
 	}
 	if c.IsStatic(c04BlobPkg, "Ref", "Valid") && lk.rowField(call.Call.Args[0]) == "largeRef" {
@@ -1168,19 +1993,256 @@ func (lk *c04Lookup) assume(p *Program, packed bool) func(ssa.Value) (bool, bool
 	}
 }
 
-// c04FilteredSlice checks that the []blob.Ref value arg is a slice variable
-// all of whose contents are refs appended, in the function that looked them up
-// with getMetaRow, on paths that are impossible when that row exists and is packed.
-func c04FilteredSlice(p *Program, arg ssa.Value) (bool, string) {
+// notExists is the pruning function for "the ref has no meta row".
+func (lk *c04Lookup) notExists(p *Program) func(ssa.Value) (bool, bool) {
+	return func(cond ssa.Value) (bool, bool) {
+		if what, pos := lk.says(p, cond); what == "exists" || what == "packed" {
+			return true, !pos
+		}
+		return false, false
+	}
+}
+
+// reach: the sites reachable from (after) start in the effective body, with
+// branch pruning (assume may decide an If condition) and barriers (a path
+// ends at a site accepted by barrier). Helper calls are entered; the walk
+// continues after a helper call only if some return of the helper is
+// reachable, and, when only returns with a non-nil error are, under the
+// assumption that the call's error is non-nil (so the caller's `if err != nil`
+// is followed on the error side only and `check(err)` ends the path). When
+// the function start lies in returns, the walk continues after its call in
+// the caller in the same way.
+func (b *c04Body) reach(start c04Site, assume func(cond ssa.Value) (known, val bool), barrier func(s c04Site) bool) map[c04Site]bool {
+	out := map[c04Site]bool{}
+	type key struct {
+		fr   *c04Frame
+		b    *ssa.BasicBlock
+		mode *ssa.Call
+	}
+	type kinds struct{ err, maybeOK, done bool }
+	seen := map[key]bool{}
+	onChain := map[*c04Frame]bool{}
+	for f := start.fr; f != nil; f = f.parent {
+		onChain[f] = true
+	}
+	type kidKey struct {
+		fr   *c04Frame
+		mode *ssa.Call
+	}
+	reached := map[kidKey]*kinds{}
+	errOnly := map[*ssa.Function]map[*ssa.Return]bool{}
+	isErrOnly := func(fn *ssa.Function, ret *ssa.Return) bool {
+		m, ok := errOnly[fn]
+		if !ok {
+			m = map[*ssa.Return]bool{}
+			if ErrResultIndex(fn) >= 0 {
+				maybe := map[*ssa.Return]bool{}
+				for _, nr := range MaybeNilErrorReturns(fn) {
+					maybe[nr.Ret] = true
+				}
+				for _, ri := range Returns(fn) {
+					if !maybe[ri.Ret] {
+						m[ri.Ret] = true
+					}
+				}
+			}
+			errOnly[fn] = m
+		}
+		return m[ret]
+	}
+	// mode: the call whose error result is assumed non-nil on this path (nil: none)
+	var walk func(fr *c04Frame, blk *ssa.BasicBlock, from int, mode *ssa.Call, cur *kinds)
+	after := func(fr *c04Frame, ci ssa.CallInstruction, failed bool, cur *kinds) {
+		var mode *ssa.Call
+		if call, ok := ci.(*ssa.Call); ok && failed {
+			mode = call
+		}
+		walk(fr, ci.Block(), instrIndex(ci)+1, mode, cur)
+	}
+	walk = func(fr *c04Frame, blk *ssa.BasicBlock, from int, mode *ssa.Call, cur *kinds) {
+		var failedVals []ssa.Value
+		if mode != nil {
+			failedVals, _, _ = c04ErrAliases(mode)
+		}
+		for i := from; i < len(blk.Instrs); i++ {
+			in := blk.Instrs[i]
+			s := c04Site{fr, in}
+			if barrier != nil && barrier(s) {
+				return
+			}
+			out[s] = true
+			if mode != nil && in == ssa.Instruction(mode) {
+				// the call is executed again: what was assumed about its previous result no longer holds
+				walk(fr, blk, i, nil, cur)
+				return
+			}
+			if ci, ok := in.(*ssa.Call); ok {
+				// the failed error handed to a function that returns only when it is nil
+				if f := ci.Call.StaticCallee(); f != nil && mode != nil && InModule(f) && f.Blocks != nil && len(f.Params) == len(ci.Call.Args) {
+					dead := false
+					for ai, a := range ci.Call.Args {
+						for _, fv := range failedVals {
+							if fv != nil && a == fv && c04ReturnsOnlyIfNil(f, f.Params[ai]) {
+								dead = true
+							}
+						}
+					}
+					if dead {
+						return
+					}
+				}
+				if kid := fr.kids[ci]; kid != nil && len(kid.fn.Blocks) > 0 {
+					kk := kidKey{kid, mode}
+					k := reached[kk]
+					if k == nil {
+						k = &kinds{}
+						reached[kk] = k
+						seen[key{kid, kid.fn.Blocks[0], mode}] = true
+						walk(kid, kid.fn.Blocks[0], 0, mode, k)
+						k.done = true
+					} else if !k.done {
+						k = &kinds{err: true, maybeOK: true} // recursion in progress: assume anything
+					}
+					switch {
+					case !k.err && !k.maybeOK:
+						return // every path through the helper ends at a barrier, a pruned branch or a panic
+					case k.err && !k.maybeOK:
+						after(fr, ci, true, cur)
+						return
+					}
+				}
+			}
+			if ret, ok := in.(*ssa.Return); ok {
+				failed := isErrOnly(fr.fn, ret)
+				if cur != nil {
+					if failed {
+						cur.err = true
+					} else {
+						cur.maybeOK = true
+					}
+				}
+				if onChain[fr] && fr.parent != nil && cur == nil {
+					after(fr.parent, fr.call, failed, nil)
+				}
+			}
+		}
+		succs := blk.Succs
+		if n := len(blk.Instrs); n > 0 {
+			if ifi, ok := blk.Instrs[n-1].(*ssa.If); ok && len(blk.Succs) == 2 {
+				decided := false
+				if assume != nil {
+					if k, val := assume(ifi.Cond); k {
+						decided = true
+						if val {
+							succs = blk.Succs[:1]
+						} else {
+							succs = blk.Succs[1:2]
+						}
+					}
+				}
+				if !decided {
+					for _, fv := range failedVals {
+						if fv == nil {
+							continue
+						}
+						// cond == true would mean "fv is nil" (isNil) or "fv is non-nil": fv is non-nil
+						if k, isNil := c04CondSaysNil(ifi.Cond, true, fv); k {
+							if isNil {
+								succs = blk.Succs[1:2]
+							} else {
+								succs = blk.Succs[:1]
+							}
+							break
+						}
+					}
+				}
+			}
+		}
+		for _, sc := range succs {
+			k := key{fr, sc, mode}
+			if !seen[k] {
+				seen[k] = true
+				walk(fr, sc, 0, mode, cur)
+			}
+		}
+	}
+	walk(start.fr, start.in.Block(), instrIndex(start.in)+1, nil, nil)
+	return out
+}
+
+// c04CellOfAddr: the variable an address denotes, also through a pointer
+// parameter of a helper to which every static caller passes the address of one
+// and the same variable.
+func c04CellOfAddr(p *Program, addr ssa.Value, depth int) (ssa.Value, bool) {
+	if cell, ok := varOf(addr); ok {
+		if _, isFV := cell.(*ssa.FreeVar); !isFV {
+			return cell, true
+		}
+	}
+	prm, ok := addr.(*ssa.Parameter)
+	if !ok || depth > c04MaxFrameDepth || !c04IsHelper(prm.Parent()) || len(p.FuncValueUses(prm.Parent())) > 0 {
+		return nil, false
+	}
+	f := prm.Parent()
+	var cell ssa.Value
+	for _, c := range p.StaticCallers(f) {
+		args := c.Common().Args
+		if len(args) != len(f.Params) {
+			return nil, false
+		}
+		for i, fp := range f.Params {
+			if fp != prm {
+				continue
+			}
+			c2, ok := c04CellOfAddr(p, args[i], depth+1)
+			if !ok || cell != nil && c2 != cell {
+				return nil, false
+			}
+			cell = c2
+		}
+	}
+	return cell, cell != nil
+}
+
+// c04StoresToCell: storesTo plus the stores helpers make through a pointer
+// parameter that denotes the variable.
+func c04StoresToCell(p *Program, cell ssa.Value) []*ssa.Store {
+	out := storesTo(cell)
+	for _, f := range p.FuncsIn(c04Rel) {
+		for _, b := range f.Blocks {
+			for _, in := range b.Instrs {
+				st, ok := in.(*ssa.Store)
+				if !ok {
+					continue
+				}
+				if _, isPrm := st.Addr.(*ssa.Parameter); !isPrm {
+					continue
+				}
+				if c2, ok := c04CellOfAddr(p, st.Addr, 0); ok && c2 == cell {
+					out = append(out, st)
+				}
+			}
+		}
+	}
+	return out
+}
+
+// c04FilteredSlice checks that the []blob.Ref value arg (of frame fr) is a
+// slice variable all of whose contents are refs appended, in code that looked
+// them up with getMetaRow, on paths that are impossible when that row exists
+// and is packed. bodies: the effective bodies of the entry point and of its
+// function literals (the contexts an append may run in).
+func c04FilteredSlice(p *Program, bodies []*c04Body, fr *c04Frame, arg ssa.Value) (bool, string) {
+	_, arg = c04Up(fr, arg)
 	ld, ok := arg.(*ssa.UnOp)
 	if !ok || ld.Op != token.MUL {
 		return false, "the refs argument is not a local slice variable filled from meta lookups"
 	}
-	cell, ok := varOf(ld.X)
+	cell, ok := c04CellOfAddr(p, ld.X, 0)
 	if !ok {
 		return false, "the refs argument is not a local slice variable filled from meta lookups"
 	}
-	stores := storesTo(cell)
+	stores := c04StoresToCell(p, cell)
 	if len(stores) == 0 {
 		return false, "the slice variable is never appended to"
 	}
@@ -1194,27 +2256,38 @@ func c04FilteredSlice(p *Program, arg ssa.Value) (bool, string) {
 		}
 		if base, ok := app.Call.Args[0].(*ssa.UnOp); !ok || base.Op != token.MUL {
 			return false, fmt.Sprintf("append at line %d does not extend the variable itself", c04Line(p, st.Pos()))
-		} else if bc, ok := varOf(base.X); !ok || bc != cell {
+		} else if bc, ok := c04CellOfAddr(p, base.X, 0); !ok || bc != cell {
 			return false, fmt.Sprintf("append at line %d does not extend the variable itself", c04Line(p, st.Pos()))
 		}
 		elems, ok := c04VarargElems(app.Call.Args[1])
 		if !ok {
 			return false, fmt.Sprintf("append at line %d adds a whole slice, not individually looked-up refs", c04Line(p, st.Pos()))
 		}
-		lks := c04Lookups(p, st.Parent())
-		for _, e := range elems {
-			good := false
-			for _, lk := range lks {
-				if !sameOrigin(e, lk.ref) || !Precedes(lk.call, st) {
-					continue
-				}
-				if !c04ReachAssuming(lk.call, lk.assume(p, true))[st] {
-					good = true
+		// every context the append runs in
+		nCtx := 0
+		for _, body := range bodies {
+			lks := c04Lookups(p, body)
+			for _, sfr := range body.framesOf(st.Parent()) {
+				nCtx++
+				at := c04Site{sfr, st}
+				for _, e := range elems {
+					good := false
+					for _, lk := range lks {
+						if !c04SameIn(sfr, e, lk.site.fr, lk.ref) || !body.precedes(lk.site, at) {
+							continue
+						}
+						if !body.reach(lk.site, lk.assume(p, true), nil)[at] {
+							good = true
+						}
+					}
+					if !good {
+						return false, fmt.Sprintf("the ref appended at line %d is not one whose meta row was looked up and found absent/not packed on every path to the append", c04Line(p, st.Pos()))
+					}
 				}
 			}
-			if !good {
-				return false, fmt.Sprintf("the ref appended at line %d is not one whose meta row was looked up and found absent/not packed on every path to the append", c04Line(p, st.Pos()))
-			}
+		}
+		if nCtx == 0 {
+			return false, fmt.Sprintf("the append at line %d is in code the entry point and its callbacks do not call directly", c04Line(p, st.Pos()))
 		}
 	}
 	return true, fmt.Sprintf("%d append site(s), each unreachable once the ref's own row exists and is packed", len(stores))
@@ -1223,34 +2296,84 @@ func c04FilteredSlice(p *Program, arg ssa.Value) (bool, string) {
 // ---------------------------------------------------------------------------
 // Z-read
 
+// c04ReadRoots: the effective bodies in which an entry point's code runs: the
+// entry point, and each function literal nested in it that is not called
+// directly (a literal that is called directly is part of its caller's body).
+func c04ReadRoots(top *ssa.Function) []*c04Body {
+	out := []*c04Body{c04BodyOf(top)}
+	var collect func(f *ssa.Function)
+	collect = func(f *ssa.Function) {
+		for _, a := range f.AnonFuncs {
+			inSome := false
+			for _, b := range out {
+				if b.has(a) {
+					inSome = true
+				}
+			}
+			if !inSome {
+				out = append(out, c04BodyOf(a))
+			}
+			collect(a)
+		}
+	}
+	collect(top)
+	// literals of the helpers that run as part of those bodies
+	for i := 0; i < len(out); i++ {
+		for _, fr := range out[i].frames {
+			if fr.parent == nil {
+				continue
+			}
+			for _, a := range fr.fn.AnonFuncs {
+				inSome := false
+				for _, b := range out {
+					if b.has(a) {
+						inSome = true
+					}
+				}
+				if !inSome {
+					out = append(out, c04BodyOf(a))
+				}
+			}
+		}
+	}
+	return out
+}
+
 func c04ZRead(p *Program, r *Reporter) {
 	const rule = "Z-read"
 	nSmall, nLarge := 0, 0
 	for _, name := range []string{"Fetch", "SubFetch", "StatBlobs"} {
 		top := p.Func(c04Rel, "storage", name)
-		var fns []*ssa.Function
-		var collect func(f *ssa.Function)
-		collect = func(f *ssa.Function) {
-			fns = append(fns, f)
-			for _, a := range f.AnonFuncs {
-				collect(a)
+		bodies := c04ReadRoots(top)
+		// the caller-supplied offset of a ranged read: the first integer parameter of the entry point
+		var offsetPrm *ssa.Parameter
+		if name == "SubFetch" {
+			for _, prm := range top.Params {
+				if b, isB := prm.Type().Underlying().(*types.Basic); isB && b.Info()&types.IsInteger != 0 {
+					offsetPrm = prm
+					break
+				}
 			}
 		}
-		collect(top)
 		sawSmall, sawLarge, sawLookup := false, false, false
-		for _, fn := range fns {
-			lks := c04Lookups(p, fn)
+		for _, body := range bodies {
+			fn := body.root.fn
+			lks := c04Lookups(p, body)
 			if len(lks) > 0 {
 				sawLookup = true
 			}
-			for _, c := range CallsIn(fn, false) {
+			for _, s := range body.calls(nil) {
+				c := s.call()
 				role := ""
 				cc := c.Common()
 				if cc.IsInvoke() {
-					role = c04Role(cc.Value)
+					role = c04RoleIn(s.fr, cc.Value)
 				} else {
+					if cal := c.Callee(); c04IsHelper(cal) && s.fr.kids[c.Instr] != nil {
+						continue // entered: its calls are sites of their own
+					}
 					for _, a := range cc.Args {
-						if ro := c04Role(a); ro == "small" || ro == "large" {
+						if ro := c04RoleIn(s.fr, a); ro == "small" || ro == "large" {
 							role = ro
 						}
 					}
@@ -1274,17 +2397,17 @@ func c04ZRead(p *Program, r *Reporter) {
 					nSmall++
 					sawSmall = true
 					if c04IsRefSlice(refArg.Type()) {
-						ok, detail := c04FilteredSlice(p, refArg)
+						ok, detail := c04FilteredSlice(p, bodies, s.fr, refArg)
 						r.Check(ok, rule, construct, site, "refs handed to small: "+detail,
 							"refs handed to small are not restricted to those missing from the meta index ("+detail+"): a packed blob would be looked up (and reported) a second time in small")
 						continue
 					}
 					ok, detail := false, "no getMetaRow lookup of the same ref precedes the call"
 					for _, lk := range lks {
-						if !sameOrigin(lk.ref, refArg) || !Precedes(lk.call, c.Instr) {
+						if !c04SameIn(lk.site.fr, lk.ref, s.fr, refArg) || !body.precedes(lk.site, s) {
 							continue
 						}
-						if c04ReachAssuming(lk.call, lk.assume(p, true))[c.Instr] {
+						if body.reach(lk.site, lk.assume(p, true), nil)[s] {
 							detail = "the call is reachable although the row of the same ref exists and is packed"
 						} else {
 							ok, detail = true, "unreachable once getMetaRow of the same ref says the row exists and is packed"
@@ -1299,17 +2422,18 @@ func c04ZRead(p *Program, r *Reporter) {
 				sawLarge = true
 				ok, detail := false, "no getMetaRow lookup precedes the call"
 				for _, lk := range lks {
-					if !Precedes(lk.call, c.Instr) {
+					lk := lk
+					if !body.precedes(lk.site, s) {
 						continue
 					}
-					if c04ReachAssuming(lk.call, lk.assume(p, false))[c.Instr] {
+					if body.reach(lk.site, lk.assume(p, false), nil)[s] {
 						detail = "the call is reachable although the row is not packed"
 						continue
 					}
 					from := func(field string) func(ssa.Value) bool {
 						return func(x ssa.Value) bool { return lk.rowField(x) == field }
 					}
-					if !c04Depends(refArg, from("largeRef")) || sameOrigin(refArg, lk.ref) {
+					if !c04DependsIn(body, refArg, from("largeRef"), false) || c04SameIn(s.fr, refArg, lk.site.fr, lk.ref) {
 						detail = "the ref read from large is not the row's zip ref (m.largeRef)"
 						continue
 					}
@@ -1320,23 +2444,17 @@ func c04ZRead(p *Program, r *Reporter) {
 						}
 					}
 					if len(ints) == 2 {
-						if !c04Depends(ints[0], from("largeOff")) {
+						if !c04DependsIn(body, ints[0], from("largeOff"), false) {
 							detail = "the offset read from large does not depend on the row's offset (m.largeOff)"
 							continue
 						}
-						if !c04Depends(ints[1], from("size")) {
+						if !c04DependsIn(body, ints[1], from("size"), false) {
 							detail = "the length read from large is not bounded by the row's size (m.size): bytes of neighbouring blobs in the zip would be returned"
 							continue
 						}
 						// a caller-supplied offset must be honoured
-						miss := ""
-						for _, prm := range fn.Params {
-							if prm.Name() == "offset" && !c04Depends(ints[0], func(x ssa.Value) bool { return x == ssa.Value(prm) }) {
-								miss = "the offset read from large ignores the caller's offset parameter"
-							}
-						}
-						if miss != "" {
-							detail = miss
+						if offsetPrm != nil && !c04DependsIn(body, ints[0], func(x ssa.Value) bool { return x == ssa.Value(offsetPrm) }, false) {
+							detail = "the offset read from large ignores the caller's offset parameter"
 							continue
 						}
 					}
@@ -1365,14 +2483,56 @@ func c04ZRead(p *Program, r *Reporter) {
 	r.Floor(rule, 9)
 }
 
+// c04LeafReturns: the returns of the frame's function, with `return h(...)`
+// of a helper of the body replaced by the helper's own returns.
+type c04FrameReturn struct {
+	fr *c04Frame
+	ri ReturnInfo
+}
+
+func c04LeafReturns(fr *c04Frame, depth int) []c04FrameReturn {
+	var out []c04FrameReturn
+	for _, ri := range Returns(fr.fn) {
+		var call *ssa.Call
+		fwd := len(ri.Results) > 0 && depth < c04MaxFrameDepth
+		for i, v := range ri.Results {
+			switch x := v.(type) {
+			case *ssa.Extract:
+				c, isC := x.Tuple.(*ssa.Call)
+				if !isC || x.Index != i || call != nil && c != call {
+					fwd = false
+				}
+				call = c
+			case *ssa.Call:
+				if len(ri.Results) != 1 {
+					fwd = false
+				}
+				call = x
+			default:
+				fwd = false
+			}
+		}
+		if fwd && call != nil && fr.kids[call] != nil {
+			out = append(out, c04LeafReturns(fr.kids[call], depth+1)...)
+			continue
+		}
+		out = append(out, c04FrameReturn{fr, ri})
+	}
+	return out
+}
+
 // c04StatAnswer: the stat callback answers from the row only when it exists,
 // with the row's size and the looked-up ref.
 func c04StatAnswer(p *Program, r *Reporter) {
 	const rule = "Z-read"
 	top := p.Func(c04Rel, "storage", "StatBlobs")
 	found := false
-	for _, fn := range top.AnonFuncs {
-		lks := c04Lookups(p, fn)
+	for _, body := range c04ReadRoots(top) {
+		fn := body.root.fn
+		if fn == top {
+			continue
+		}
+		lks := c04Lookups(p, body)
 		if len(lks) != 1 {
 			continue
 		}
@@ -1381,7 +2541,8 @@ func c04StatAnswer(p *Program, r *Reporter) {
 		construct := FuncKey(fn) + "#stat-from-row"
 		ok, detail := true, ""
 		n := 0
-		for _, ri := range Returns(fn) {
+		for _, lr := range c04LeafReturns(body.root, 0) {
+			ri := lr.ri
 			if len(ri.Results) != 2 || !IsNilConst(ri.Results[1]) {
 				continue
 			}
@@ -1389,19 +2550,11 @@ func c04StatAnswer(p *Program, r *Reporter) {
 				continue // zero SizedRef: "not here, try small"
 			}
 			n++
-			if !c04Depends(ri.Results[0], func(x ssa.Value) bool { return lk.rowField(x) == "size" }) {
+			if !c04DependsIn(body, ri.Results[0], func(x ssa.Value) bool { return lk.rowField(x) == "size" }, false) {
 				ok, detail = false, fmt.Sprintf("the answer returned at line %d does not carry the row's size", c04Line(p, ri.Ret.Pos()))
 			}
 			// must be impossible when the row does not exist
-			notExists := func(cond ssa.Value) (bool, bool) {
-				if what, pos := lk.says(p, cond); what == "exists" {
-					return true, !pos
-				} else if what == "packed" {
-					return true, !pos
-				}
-				return false, false
-			}
-			if c04ReachAssuming(lk.call, notExists)[ri.Ret] {
+			if body.reach(lk.site, lk.notExists(p), nil)[c04Site{lr.fr, ri.Ret}] {
 				ok, detail = false, fmt.Sprintf("the answer returned at line %d is reachable when the ref has no meta row", c04Line(p, ri.Ret.Pos()))
 			}
 		}
@@ -1419,12 +2572,12 @@ func c04StatAnswer(p *Program, r *Reporter) {
 func c04RecvAck(p *Program, r *Reporter) {
 	const rule = "Z-read"
 	fn := p.Func(c04Rel, "storage", "ReceiveBlob")
-	lks := c04Lookups(p, fn)
-	var smallRecv []*ssa.Call
-	for _, c := range CallsIn(fn, false) {
-		cc := c.Common()
-		if cc.IsInvoke() && cc.Method.Name() == "ReceiveBlob" && c04Role(cc.Value) == "small" && c.Value() != nil {
-			smallRecv = append(smallRecv, c.Value())
+	body := c04BodyOf(fn)
+	lks := c04Lookups(p, body)
+	var smallRecv []c04Site
+	for _, s := range c04RoleInvokes(body, "small", "ReceiveBlob") {
+		if s.call().Value() != nil {
+			smallRecv = append(smallRecv, s)
 		}
 	}
 	construct := FuncKey(fn) + "#ack"
@@ -1433,12 +2586,23 @@ func c04RecvAck(p *Program, r *Reporter) {
 		return
 	}
 	lk := lks[0]
+	isRecv := func(s c04Site) bool {
+		for _, sr := range smallRecv {
+			if s == sr {
+				return true
+			}
+		}
+		return false
+	}
 	ok, detail, n := true, "", 0
 	for _, nr := range MaybeNilErrorReturns(fn) {
 		n++
 		good := false
 		for _, sr := range smallRecv {
-			if ev, _, _ := ErrValue(sr); ev != nil && sameOrigin(nr.Val, ev) {
+			if sr.fr != body.root {
+				continue
+			}
+			if ev, _, _ := ErrValue(sr.call().Value()); ev != nil && sameOrigin(nr.Val, ev) {
 				good = true // returns small's own error
 			}
 		}
@@ -1446,35 +2610,19 @@ func c04RecvAck(p *Program, r *Reporter) {
 			continue
 		}
 		// under "row does not exist" the return must be unreachable from the lookup without a successful small receive
-		notExists := func(cond ssa.Value) (bool, bool) {
-			if what, pos := lk.says(p, cond); what == "exists" || what == "packed" {
-				return true, !pos
-			}
-			return false, false
-		}
-		last := nr.From.Instrs[len(nr.From.Instrs)-1]
-		if !c04ReachAssuming(lk.call, notExists)[last] {
+		last := c04Site{body.root, nr.From.Instrs[len(nr.From.Instrs)-1]}
+		if !body.reach(lk.site, lk.notExists(p), nil)[last] {
 			continue
 		}
 		viaSmall := false
 		for _, sr := range smallRecv {
-			if k, _ := c04SuccessAt(sr, last); k {
+			if k, _ := body.successAt(sr, last); k {
 				viaSmall = true
 			}
 		}
 		// a path merging "exists" and "received" branches: every predecessor path without a row must pass the receive
-		if !viaSmall {
-			leaks := c04ReachAssumingBarrier(lk.call, notExists, func(in ssa.Instruction) bool {
-				for _, sr := range smallRecv {
-					if in == ssa.Instruction(sr) {
-						return true
-					}
-				}
-				return false
-			})
-			if !leaks[last] {
-				viaSmall = true
-			}
+		if !viaSmall && !body.reach(lk.site, lk.notExists(p), isRecv)[last] {
+			viaSmall = true
 		}
 		if !viaSmall {
 			ok, detail = false, fmt.Sprintf("the success return at line %d is reachable with no meta row and without small.ReceiveBlob having been called", c04Line(p, nr.Ret.Pos()))
@@ -1485,78 +2633,47 @@ func c04RecvAck(p *Program, r *Reporter) {
 	}
 	// the error of small.ReceiveBlob must not be dropped
 	for _, sr := range smallRecv {
-		if _, _, discarded := ErrValue(sr); discarded {
+		if _, _, discarded := ErrValue(sr.call().Value()); discarded {
 			ok, detail = false, "the error of small.ReceiveBlob is discarded"
 		}
 	}
 	r.Check(ok, rule, construct, p.Pos(fn.Pos()), fmt.Sprintf("%d possibly-successful return(s): each needs an existing row or passes small.ReceiveBlob whose error is checked", n), detail)
 }
 
-// c04ReachAssumingBarrier: like c04ReachAssuming but paths stop at barrier instructions.
-func c04ReachAssumingBarrier(start ssa.Instruction, assume func(ssa.Value) (bool, bool), barrier func(ssa.Instruction) bool) map[ssa.Instruction]bool {
-	out := map[ssa.Instruction]bool{}
-	seen := map[*ssa.BasicBlock]bool{}
-	var walk func(b *ssa.BasicBlock, from int)
-	walk = func(b *ssa.BasicBlock, from int) {
-		for i := from; i < len(b.Instrs); i++ {
-			if barrier(b.Instrs[i]) {
-				return
-			}
-			out[b.Instrs[i]] = true
-		}
-		succs := b.Succs
-		if ifi, ok := b.Instrs[len(b.Instrs)-1].(*ssa.If); ok && len(b.Succs) == 2 {
-			if k, val := assume(ifi.Cond); k {
-				if val {
-					succs = b.Succs[:1]
-				} else {
-					succs = b.Succs[1:2]
-				}
-			}
-		}
-		for _, s := range succs {
-			if !seen[s] {
-				seen[s] = true
-				walk(s, 0)
-			}
-		}
-	}
-	walk(start.Block(), instrIndex(start)+1)
-	return out
-}
-
 // c04Enumerate: EnumerateBlobs merges exactly small and the b: enumerator.
 func c04Enumerate(p *Program, r *Reporter) {
 	const rule = "Z-read"
 	fn := p.Func(c04Rel, "storage", "EnumerateBlobs")
+	body := c04BodyOf(fn)
 	construct := FuncKey(fn) + "#merged-sources"
-	var merged []CallSite
-	for _, c := range CallsIn(fn, false) {
-		if f := c.Callee(); f != nil && f.Pkg != nil && f.Pkg.Pkg.Path() == c04BSPkg && strings.HasPrefix(f.Name(), "MergedEnumerate") {
-			merged = append(merged, c)
-		}
-	}
+	merged := body.calls(func(c CallSite) bool {
+		f := c.Callee()
+		return f != nil && f.Pkg != nil && f.Pkg.Pkg.Path() == c04BSPkg && strings.HasPrefix(f.Name(), "MergedEnumerate")
+	})
 	if len(merged) != 1 {
 		r.Violation(rule, construct, p.Pos(fn.Pos()), fmt.Sprintf("EnumerateBlobs has %d blobserver.MergedEnumerate* calls, want 1", len(merged)))
 		return
 	}
 	c := merged[0]
 	var srcs []ssa.Value
+	srcFr := c.fr
 	okList := false
-	for _, a := range c.Common().Args {
+	for _, a := range c.call().Common().Args {
 		if _, isSl := a.Type().Underlying().(*types.Slice); isSl {
-			srcs, okList = c04VarargElems(a)
+			fr2, v := c04Up(c.fr, a)
+			srcFr = fr2
+			srcs, okList = c04VarargElems(originValue(v))
 		}
 	}
 	if !okList {
-		r.Undecided(rule, construct, p.Pos(c.Pos()), "the source list of MergedEnumerate is not a slice literal")
+		r.Undecided(rule, construct, p.Pos(c.in.Pos()), "the source list of MergedEnumerate is not a slice literal")
 		return
 	}
 	nSmall, nEnum, other := 0, 0, 0
 	enumT := p.NamedType(c04Rel, "enumerator")
 	for _, s := range srcs {
 		switch {
-		case c04Role(s) == "small":
+		case c04RoleIn(srcFr, s) == "small":
 			nSmall++
 		case types.Identical(c04StripIfaceOnly(s).Type(), enumT):
 			nEnum++
@@ -1564,7 +2681,7 @@ func c04Enumerate(p *Program, r *Reporter) {
 			other++
 		}
 	}
-	r.Check(nSmall == 1 && nEnum == 1 && other == 0, rule, construct, p.Pos(c.Pos()),
+	r.Check(nSmall == 1 && nEnum == 1 && other == 0, rule, construct, p.Pos(c.in.Pos()),
 		"MergedEnumerate over exactly {s.small, enumerator{s}} (loose blobs and the b: rows)",
 		fmt.Sprintf("MergedEnumerate sources are small×%d, b:-row enumerator×%d, other×%d; want exactly one of each of the first two: a missing source hides blobs, an extra one (e.g. large) lists zips as if they were logical blobs", nSmall, nEnum, other))
 }
@@ -1601,13 +2718,111 @@ func c04LeqFact(cond ssa.Value, val bool, isX func(ssa.Value) bool) (ssa.Value, 
 	return nil, false
 }
 
+// c04FrameNear: the activation a value belongs to: the frame of its function
+// on the chain from `near` upwards, else the first frame of that function.
+func (b *c04Body) frameNear(v ssa.Value, near *c04Frame) *c04Frame {
+	var fn *ssa.Function
+	switch x := v.(type) {
+	case ssa.Instruction:
+		fn = x.Parent()
+	case *ssa.Parameter:
+		fn = x.Parent()
+	case *ssa.FreeVar:
+		fn = x.Parent()
+	}
+	if fn == nil {
+		return near
+	}
+	for f := near; f != nil; f = f.parent {
+		if f.fn == fn {
+			return f
+		}
+	}
+	if fs := b.framesOf(fn); len(fs) > 0 {
+		return fs[0]
+	}
+	return near
+}
+
+// c04BoundLeaves resolves an integer bound to the values it may take:
+// constants, loads of struct fields, anything else ("other"); through locals,
+// phis, helpers' parameters and the results of package functions.
+type c04BoundLeaf struct {
+	konst *int64
+	field string // "Type.field" for a struct field load
+	other ssa.Value
+}
+
+func c04BoundLeaves(fr *c04Frame, v ssa.Value, depth int, seen map[ssa.Value]bool) []c04BoundLeaf {
+	if v == nil || depth > 12 || seen[v] {
+		return nil
+	}
+	seen[v] = true
+	fr, v = c04Up(fr, v)
+	o := originValue(v)
+	if c, ok := ConstInt(o); ok {
+		return []c04BoundLeaf{{konst: &c}}
+	}
+	switch x := o.(type) {
+	case *ssa.Convert:
+		return c04BoundLeaves(fr, x.X, depth+1, seen)
+	case *ssa.Phi:
+		var out []c04BoundLeaf
+		for _, e := range x.Edges {
+			out = append(out, c04BoundLeaves(fr, e, depth+1, seen)...)
+		}
+		return out
+	case *ssa.UnOp:
+		if x.Op == token.MUL {
+			if id, ok := c04FieldOf(x.X); ok {
+				return []c04BoundLeaf{{field: id.String()}}
+			}
+			if al, ok := x.X.(*ssa.Alloc); ok && plainVariable(al) {
+				var out []c04BoundLeaf
+				for _, st := range storesTo(al) {
+					out = append(out, c04BoundLeaves(fr, st.Val, depth+1, seen)...)
+				}
+				if len(out) > 0 {
+					return out
+				}
+			}
+		}
+	case *ssa.Call:
+		if f := (CallSite{x.Parent(), x}).Callee(); f != nil && InModule(f) && f.Blocks != nil && f.Signature.Results().Len() == 1 {
+			var out []c04BoundLeaf
+			var kid *c04Frame
+			if fr != nil {
+				kid = fr.kids[x]
+			}
+			for _, ri := range Returns(f) {
+				if kid != nil {
+					out = append(out, c04BoundLeaves(kid, ri.Results[0], depth+1, seen)...)
+				} else {
+					out = append(out, c04BoundLeaves(nil, ri.Results[0], depth+1, seen)...)
+				}
+			}
+			if len(out) > 0 {
+				return out
+			}
+		}
+	}
+	return []c04BoundLeaf{{other: o}}
+}
+
 func c04ZSize(p *Program, r *Reporter) {
 	const rule = "Z-size"
 	fn := p.Func(c04Rel, "packer", "writeAZip")
-	maxFn := p.Func(c04Rel, "storage", "maxZipBlobSize")
+	maxFn := p.LookupFunc(c04Rel, "storage", "maxZipBlobSize")
 	key := FuncKey(fn)
+	body := c04BodyOf(fn)
+	capObj, _ := p.Pkg("pkg/constants").Types.Scope().Lookup("MaxBlobSize").(*types.Const)
+	if capObj == nil {
+		brokenf("anchor unresolved: pkg/constants.MaxBlobSize")
+	}
+	capV, _ := constant.Int64Val(capObj.Val())
+	const overrideField = "storage.forceMaxZipBlobSize"
 	n := 0
-	for _, rc := range c04LargeReceives(fn) {
+	for _, rc := range c04LargeReceives(body) {
 		n++
 		construct := key + "#" + rc.c.CalleeKey() + "#size-bound"
 		site := p.Pos(rc.c.Pos())
@@ -1617,79 +2832,107 @@ func c04ZSize(p *Program, r *Reporter) {
 		}
 		// the buffers whose Bytes() feed the received reader
 		var bufs []ssa.Value
-		c04Depends(rc.reader, func(x ssa.Value) bool {
+		c04DependsIn(body, rc.reader, func(x ssa.Value) bool {
 			if call, ok := x.(*ssa.Call); ok {
 				if (CallSite{call.Parent(), call}).IsStatic("bytes", "Buffer", "Bytes") {
-					bufs = append(bufs, call.Call.Args[0])
+					dup := false
+					for _, b := range bufs {
+						if c04SameIn(body.frameNear(b, rc.site.fr), b, body.frameNear(call, rc.site.fr), call.Call.Args[0]) {
+							dup = true
+						}
+					}
+					if !dup {
+						bufs = append(bufs, call.Call.Args[0])
+					}
 				}
 			}
 			return false
-		})
+		}, false)
 		if len(bufs) != 1 {
 			r.Undecided(rule, construct, site, fmt.Sprintf("the bytes received into large come from %d bytes.Buffer values; the rule follows exactly one", len(bufs)))
 			continue
 		}
 		buf := bufs[0]
-		isLen := func(x ssa.Value) bool {
-			call, ok := x.(*ssa.Call)
-			return ok && (CallSite{call.Parent(), call}).IsStatic("bytes", "Buffer", "Len") && (call.Call.Args[0] == buf || sameOrigin(call.Call.Args[0], buf))
-		}
+		bufFr := body.frameNear(buf, rc.site.fr)
 		ok, detail := false, "no dominating comparison of the buffer's Len() that bounds it at the receive"
-		for _, f := range FactsAt(rc.c.Block()) {
-			y, is := c04LeqFact(f.Cond, f.Val, isLen)
-			if !is {
-				continue
+		var cmp c04Site
+		bounded := body.factAt(rc.site, func(ffr *c04Frame, cond ssa.Value, val bool) bool {
+			isLen := func(x ssa.Value) bool {
+				call, ok := x.(*ssa.Call)
+				return ok && (CallSite{call.Parent(), call}).IsStatic("bytes", "Buffer", "Len") && c04SameIn(ffr, call.Call.Args[0], bufFr, buf)
 			}
-			yc, isCall := originValue(y).(*ssa.Call)
-			if isCall && (CallSite{yc.Parent(), yc}).Callee() == maxFn {
-				// no write to the buffer between the comparison and the receive
-				ok, detail = true, "received buffer's Len() is known <= maxZipBlobSize() at the receive"
-				cmpInstr := f.At.Instrs[len(f.At.Instrs)-1]
-				for in := range ReachableFrom(cmpInstr, func(in ssa.Instruction) bool { return in == rc.c.Instr }) {
-					if ci, isCI := in.(ssa.CallInstruction); isCI {
-						cs := CallSite{in.Parent(), ci}
-						if f := cs.Callee(); f != nil && f.Signature.Recv() != nil && len(cs.Common().Args) > 0 && sameOrigin(cs.Common().Args[0], buf) && strings.HasPrefix(f.Name(), "Write") && Precedes(in, rc.c.Instr) {
-							ok, detail = false, "the buffer is written again between the size comparison and the receive"
-						}
+			y, is := c04LeqFact(cond, val, isLen)
+			if !is {
+				return false
+			}
+			// the bound: every value it may take is the test override or a constant within the blob size limit
+			leaves := c04BoundLeaves(ffr, y, 0, map[ssa.Value]bool{})
+			bad := ""
+			for _, lf := range leaves {
+				switch {
+				case lf.konst != nil:
+					if *lf.konst > capV || *lf.konst <= 0 {
+						bad = fmt.Sprintf("the buffer's Len() is bounded by the constant %d, outside (0, constants.MaxBlobSize=%d]", *lf.konst, capV)
+					}
+				case lf.field == overrideField:
+				default:
+					bad = "the buffer's Len() is compared, but not against the result of (*storage).maxZipBlobSize (a constant within constants.MaxBlobSize or the test override)"
+				}
+			}
+			if len(leaves) == 0 {
+				bad = "the bound of the comparison cannot be followed"
+			}
+			if bad != "" {
+				detail = bad
+				return false
+			}
+			if ci, isIn := cond.(ssa.Instruction); isIn {
+				cmp = c04Site{ffr, ci}
+			}
+			return true
+		}, 0)
+		if bounded {
+			// no write to the buffer between the comparison and the receive
+			ok, detail = true, "received buffer's Len() is known <= maxZipBlobSize() (the test override or a constant <= constants.MaxBlobSize) at the receive"
+			for _, ws := range body.calls(nil) {
+				cs := ws.call()
+				if wf := cs.Callee(); cmp.in != nil && wf != nil && wf.Signature.Recv() != nil && len(cs.Common().Args) > 0 && strings.HasPrefix(wf.Name(), "Write") && c04SameIn(ws.fr, cs.Common().Args[0], bufFr, buf) {
+					if body.mayFollow(cmp, ws) && body.precedes(ws, rc.site) {
+						ok, detail = false, "the buffer is written again between the size comparison and the receive"
 					}
 				}
-				break
 			}
-			detail = "the buffer's Len() is compared, but not against the result of (*storage).maxZipBlobSize"
 		}
 		r.Check(ok, rule, construct, site, detail, "zip stored into large without a size bound: "+detail+" (an over-size zip is not a valid blob and is refused or truncated by size-capped stores)")
 	}
 	if n == 0 {
 		r.Violation(rule, key+"#size-bound", p.Pos(fn.Pos()), "no receive into large found in writeAZip")
 	}
-	// maxZipBlobSize: test override or a constant <= constants.MaxBlobSize
-	capObj, _ := p.Pkg("pkg/constants").Types.Scope().Lookup("MaxBlobSize").(*types.Const)
-	if capObj == nil {
-		brokenf("anchor unresolved: pkg/constants.MaxBlobSize")
-	}
-	capV, _ := constant.Int64Val(capObj.Val())
-	construct := FuncKey(maxFn) + "#returns"
-	ok, detail, consts := true, "", 0
-	for _, ri := range Returns(maxFn) {
-		v := ri.Results[0]
-		if c, isC := ConstInt(v); isC {
-			consts++
-			if c > capV || c <= 0 {
-				ok, detail = false, fmt.Sprintf("returns the constant %d, outside (0, constants.MaxBlobSize=%d]", c, capV)
-			}
-			continue
-		}
-		if ld, isLd := originValue(v).(*ssa.UnOp); isLd && ld.Op == token.MUL {
-			if fa, isFA := ld.X.(*ssa.FieldAddr); isFA && fieldName(fa.X.Type(), fa.Field) == "forceMaxZipBlobSize" {
-				continue
+	// maxZipBlobSize (when it exists as a function): test override or a constant <= constants.MaxBlobSize
+	if maxFn != nil {
+		construct := FuncKey(maxFn) + "#returns"
+		ok, detail, consts := true, "", 0
+		for _, ri := range Returns(maxFn) {
+			for _, lf := range c04BoundLeaves(nil, ri.Results[0], 0, map[ssa.Value]bool{}) {
+				switch {
+				case lf.konst != nil:
+					consts++
+					if *lf.konst > capV || *lf.konst <= 0 {
+						ok, detail = false, fmt.Sprintf("returns the constant %d, outside (0, constants.MaxBlobSize=%d]", *lf.konst, capV)
+					}
+				case lf.field == overrideField:
+				default:
+					ok, detail = false, fmt.Sprintf("return at line %d is neither the forceMaxZipBlobSize override nor a constant", c04Line(p, ri.Ret.Pos()))
+				}
 			}
 		}
-		ok, detail = false, fmt.Sprintf("return at line %d is neither the forceMaxZipBlobSize override nor a constant", c04Line(p, ri.Ret.Pos()))
+		if consts == 0 && ok {
+			ok, detail = false, "no constant default"
+		}
+		r.Check(ok, rule, construct, p.Pos(maxFn.Pos()), fmt.Sprintf("default is a constant <= constants.MaxBlobSize (%d); the only other return is the test override field", capV), "maxZipBlobSize "+detail)
+	} else {
+		r.OKTable(rule, c04Rel+"#maxZipBlobSize-inlined", "?", "no (*storage).maxZipBlobSize function: the bound is checked where it is compared (size-bound)")
 	}
-	if consts == 0 && ok {
-		ok, detail = false, "no constant default"
-	}
-	r.Check(ok, rule, construct, p.Pos(maxFn.Pos()), fmt.Sprintf("default is a constant <= constants.MaxBlobSize (%d); the only other return is the test override field", capV), "maxZipBlobSize "+detail)
 	// forceMaxZipBlobSize is never assigned in non-test code
 	nW := 0
 	for _, f := range p.FuncsIn(c04Rel) {
@@ -1734,28 +2977,53 @@ func c04PSig(fs []c04PField) string {
 // c04ParseChain extracts the sequence of field parsers a hand-written row
 // parser applies: integer parses (with base and bit size) and blob-ref parses,
 // ordered by dominance (each parse is only reached after the previous one).
-func c04ParseChain(fn *ssa.Function) ([]c04PField, string) {
+func c04ParseChain(fn *ssa.Function) ([]c04PField, string) { return c04ParseChainOpt(fn, false) }
+
+// c04ParseChainOpt: with valueOnly, only the parses whose input comes from a
+// row value (the result of ValueBytes/Value/Get on the meta index) count — the
+// key parses of a function that reads both are left out.
+func c04ParseChainOpt(fn *ssa.Function, valueOnly bool) ([]c04PField, string) {
 	type item struct {
-		c CallSite
+		s c04Site
 		f c04PField
 	}
+	body := c04BodyOf(fn)
+	fromValue := func(v ssa.Value) bool {
+		return c04DependsIn(body, v, func(x ssa.Value) bool {
+			call, ok := x.(*ssa.Call)
+			if !ok || !call.Call.IsInvoke() {
+				return false
+			}
+			switch call.Call.Method.Name() {
+			case "ValueBytes", "Value", "Get":
+				return true
+			}
+			return false
+		}, false)
+	}
 	var items []item
-	for _, c := range CallsIn(fn, false) {
+	for _, s := range body.calls(nil) {
+		c := s.call()
+		if valueOnly && len(c.Common().Args) > 0 && !fromValue(c.Common().Args[0]) {
+			continue
+		}
 		switch {
 		case c.IsStatic("go4.org/strutil", "", "ParseUintBytes"), c.IsStatic("strconv", "", "ParseUint"), c.IsStatic("strconv", "", "ParseInt"):
-			base, ok1 := ConstInt(c.Common().Args[1])
-			bits, ok2 := ConstInt(c.Common().Args[2])
+			_, bv := c04Up(s.fr, c.Common().Args[1])
+			_, sv := c04Up(s.fr, c.Common().Args[2])
+			base, ok1 := ConstInt(bv)
+			bits, ok2 := ConstInt(sv)
 			if !ok1 || !ok2 {
 				return nil, "integer parse with non-constant base or bit size"
 			}
-			items = append(items, item{c, c04PField{"int", int(bits), base}})
+			items = append(items, item{s, c04PField{"int", int(bits), base}})
 		case c.IsStatic(c04BlobPkg, "", "ParseBytes"), c.IsStatic(c04BlobPkg, "", "Parse"):
-			items = append(items, item{c, c04PField{kind: "ref"}})
+			items = append(items, item{s, c04PField{kind: "ref"}})
 		}
 	}
-	sort.SliceStable(items, func(i, j int) bool { return Precedes(items[i].c.Instr, items[j].c.Instr) })
+	sort.SliceStable(items, func(i, j int) bool { return body.precedes(items[i].s, items[j].s) })
 	for i := 0; i+1 < len(items); i++ {
-		if !Precedes(items[i].c.Instr, items[i+1].c.Instr) {
+		if !body.precedes(items[i].s, items[i+1].s) {
 			return nil, "field parses are not in a single dominance chain"
 		}
 	}
@@ -1777,7 +3045,9 @@ type c04PFCall struct {
 
 func c04ParseFieldsCalls(fn *ssa.Function) ([]c04PFCall, string) {
 	var out []c04PFCall
-	for _, c := range CallsIn(fn, false) {
+	body := c04BodyOf(fn)
+	for _, s := range body.calls(nil) {
+		c := s.call()
 		if !c.IsStatic("perkeep.org/pkg/conv", "", "ParseFields") {
 			continue
 		}
@@ -1800,7 +3070,7 @@ func c04ParseFieldsCalls(fn *ssa.Function) ([]c04PFCall, string) {
 			}
 		}
 		src := c.Common().Args[0]
-		c04Depends(src, func(x ssa.Value) bool {
+		c04DependsIn(body, src, func(x ssa.Value) bool {
 			if call, ok := x.(*ssa.Call); ok && call.Call.IsInvoke() {
 				switch call.Call.Method.Name() {
 				case "ValueBytes", "Value":
@@ -1810,7 +3080,7 @@ func c04ParseFieldsCalls(fn *ssa.Function) ([]c04PFCall, string) {
 				}
 			}
 			return false
-		})
+		}, false)
 		out = append(out, pc)
 	}
 	return out, ""
@@ -1936,15 +3206,45 @@ func c04ZCodec(p *Program, r *Reporter, writers []*c04Writer) {
 	}
 
 	// parsers
-	chain := func(name string) []c04PField {
-		fn := p.Func(c04Rel, "", name)
-		fs, err := c04ParseChain(fn)
+	// a row parser: the package function of that name; when it no longer exists (inlined into
+	// its user), the value parses of the effective body of the function that plays its role
+	chain := func(name string, users ...*ssa.Function) []c04PField {
+		fn := p.LookupFunc(c04Rel, "", name)
+		valueOnly := false
+		if fn == nil {
+			valueOnly = true
+			for _, u := range users {
+				var cands []*ssa.Function
+				var collect func(f *ssa.Function)
+				collect = func(f *ssa.Function) {
+					cands = append(cands, f)
+					for _, a := range f.AnonFuncs {
+						collect(a)
+					}
+				}
+				if u != nil {
+					collect(u)
+				}
+				for _, c := range cands {
+					if fs, err := c04ParseChainOpt(c, true); err == "" && len(fs) > 0 {
+						fn = c
+					}
+				}
+			}
+		}
+		if fn == nil {
+			brokenf("anchor unresolved: row parser %s.%s (and no value parse in the functions that use it)", c04Rel, name)
+		}
+		fs, err := c04ParseChainOpt(fn, valueOnly)
 		if err != "" {
 			r.Undecided(rule, FuncKey(fn)+"#parse-chain", p.Pos(fn.Pos()), err)
 			return nil
 		}
 		return fs
 	}
+	gm := p.Func(c04Rel, "storage", "getMetaRow")
+	enumFn := p.LookupFunc(c04Rel, "enumerator", "EnumerateBlobs")
+	integ := p.Func(c04Rel, "storage", "checkLargeIntegrity")
 	open := p.Func(c04Rel, "storage", "OpenWholeRef")
 	pfs, pfErr := c04ParseFieldsCalls(open)
 	if pfErr != "" {
@@ -1956,18 +3256,24 @@ func c04ZCodec(p *Program, r *Reporter, writers []*c04Writer) {
 		prefix bool
 	}
 	parsersOf := map[string][]parser{
-		kinds[0]: {{"parseMetaRow", chain("parseMetaRow"), false}, {"parseMetaRowSizeOnly", chain("parseMetaRowSizeOnly"), true}},
-		kinds[3]: {{"parseZipMetaRow", chain("parseZipMetaRow"), false}},
+		kinds[0]: {{"parseMetaRow", chain("parseMetaRow", gm), false}, {"parseMetaRowSizeOnly", chain("parseMetaRowSizeOnly", enumFn), true}},
+		kinds[3]: {{"parseZipMetaRow", chain("parseZipMetaRow", integ), false}},
 	}
 	for _, k := range kinds {
 		ws := byKind[k]
 		construct := c04Rel + "#kind " + k
 		var packSide, reSide []*c04Writer
 		for _, w := range ws {
-			top := TopFunc(w.c.Fn)
-			if top == reindex {
+			// on whose behalf the writer runs: reindex, or a method of the packer — directly, as one
+			// of their literals, or as a helper only they (transitively) call or hand out as a value
+			isReindex := func(f *ssa.Function) bool { return f == reindex }
+			isPacker := func(f *ssa.Function) bool {
+				recv := f.Signature.Recv()
+				return recv != nil && NamedOf(recv.Type()) == packerT
+			}
+			if is, _ := c04OnlyCalledFromOpt(p, w.c.Fn, isReindex, 0, true); is {
 				reSide = append(reSide, w)
-			} else if recv := top.Signature.Recv(); recv != nil && NamedOf(recv.Type()) == packerT {
+			} else if is, _ := c04OnlyCalledFromOpt(p, w.c.Fn, isPacker, 0, true); is {
 				packSide = append(packSide, w)
 			} else {
 				r.Violation(rule, FuncKey(w.c.Fn)+"#Set "+w.kind+"#owner", p.Pos(w.c.Pos()), "row of kind "+k+" written outside the packer and reindex")
@@ -2025,11 +3331,10 @@ func c04ZCodec(p *Program, r *Reporter, writers []*c04Writer) {
 	}
 	r.Check(okKey, rule, FuncKey(open)+"#part-index-from-key", p.Pos(open.Pos()), "the part index is parsed from the key suffix as one integer", "OpenWholeRef no longer parses the part index from the w:<ref>:<n> key")
 
-	// parser <-> reader links: getMetaRow reads b: keys and hands the value to parseMetaRow
-	gm := p.Func(c04Rel, "storage", "getMetaRow")
+	// parser <-> reader links: getMetaRow reads b: keys and parses the value (in its effective body) as the b: parser does
 	linkOK, linkDetail := false, "getMetaRow has no meta.Get"
-	for _, c := range c04MetaInvokes(gm, "Get") {
-		sh, e := c04Shape(c.Common().Args[0], 0)
+	for _, cs := range c04RoleInvokes(c04BodyOf(gm), "meta", "Get") {
+		sh, e := c04Shape(cs.call().Common().Args[0], 0)
 		if e != "" {
 			linkDetail = "key of meta.Get cannot be evaluated: " + e
 			continue
@@ -2038,7 +3343,8 @@ func c04ZCodec(p *Program, r *Reporter, writers []*c04Writer) {
 			linkDetail = "getMetaRow reads key " + c04Sig(sh) + ", writers use " + kinds[0]
 			continue
 		}
-		if len(FindCalls(gm, false, func(x CallSite) bool { return x.Callee() == p.Func(c04Rel, "", "parseMetaRow") })) > 0 {
+		own, err := c04ParseChainOpt(gm, true)
+		if want := parsersOf[kinds[0]][0].fields; err == "" && len(own) > 0 && c04PSig(own) == c04PSig(want) {
 			linkOK, linkDetail = true, "getMetaRow reads "+kinds[0]+" and parses it with parseMetaRow"
 		} else {
 			linkDetail = "getMetaRow does not parse the value with parseMetaRow"
@@ -2134,16 +3440,28 @@ func c04ManifestFields(p *Program, r *Reporter) {
 		}
 		return "", false
 	}
-	var deep func(f *ssa.Function, visit func(ssa.Instruction))
-	deep = func(f *ssa.Function, visit func(ssa.Instruction)) {
-		for _, b := range f.Blocks {
-			for _, in := range b.Instrs {
-				visit(in)
+	// deep: the function, its literals, and the helpers (with their literals) they call
+	deep := func(f *ssa.Function, visit func(ssa.Instruction)) {
+		seen := map[*ssa.Function]bool{}
+		var add func(g *ssa.Function)
+		add = func(g *ssa.Function) {
+			if g == nil || seen[g] {
+				return
+			}
+			seen[g] = true
+			for _, b := range g.Blocks {
+				for _, in := range b.Instrs {
+					visit(in)
+				}
+			}
+			for _, a := range g.AnonFuncs {
+				add(a)
+			}
+			for _, fr := range c04BodyOf(g).frames {
+				add(fr.fn)
 			}
 		}
-		for _, a := range f.AnonFuncs {
-			deep(a, visit)
-		}
+		add(f)
 	}
 	// written: a store whose address is (under) the field
 	written := map[string]bool{}
@@ -2354,7 +3672,7 @@ func c04PassFuncs(top *ssa.Function) map[*ssa.Function]bool {
 		for _, a := range f.AnonFuncs {
 			add(a, depth)
 		}
-		if depth >= 2 {
+		if depth >= 3 {
 			return
 		}
 		for _, c := range CallsIn(f, false) {
@@ -2422,9 +3740,11 @@ func c04CountConsumer(p *Program, r *Reporter, fn *ssa.Function, nf int) int {
 		return -1
 	}
 	// the appends that collect part records
+	body := c04BodyOf(fn)
+	dep := func(v ssa.Value, target func(ssa.Value) bool) bool { return c04DependsIn(body, v, target, false) }
 	var appends []*ssa.Call
-	for _, c := range CallsIn(fn, false) {
-		call := c.Value()
+	for _, cs := range body.calls(nil) {
+		call := cs.call().Value()
 		if call == nil {
 			continue
 		}
@@ -2436,7 +3756,7 @@ func c04CountConsumer(p *Program, r *Reporter, fn *ssa.Function, nf int) int {
 			continue
 		}
 		for _, e := range elems {
-			if c04Depends(e, func(x ssa.Value) bool { return x == partVar }) {
+			if dep(e, func(x ssa.Value) bool { return x == partVar }) {
 				appends = append(appends, call)
 				break
 			}
@@ -2447,7 +3767,7 @@ func c04CountConsumer(p *Program, r *Reporter, fn *ssa.Function, nf int) int {
 		if !ok {
 			return false
 		}
-		return c04Depends(arg, func(x ssa.Value) bool {
+		return dep(arg, func(x ssa.Value) bool {
 			for _, a := range appends {
 				if x == ssa.Value(a) {
 					return true
@@ -2459,7 +3779,7 @@ func c04CountConsumer(p *Program, r *Reporter, fn *ssa.Function, nf int) int {
 	destOf := func(v ssa.Value) int {
 		for i, d := range dests {
 			d := d
-			if c04Depends(v, func(x ssa.Value) bool {
+			if dep(v, func(x ssa.Value) bool {
 				ld, ok := x.(*ssa.UnOp)
 				return ok && ld.Op == token.MUL && ld.X == d
 			}) {
@@ -2474,33 +3794,36 @@ func c04CountConsumer(p *Program, r *Reporter, fn *ssa.Function, nf int) int {
 		pos int
 	}
 	var cmps []cmp
-	for _, b := range fn.Blocks {
-		for _, in := range b.Instrs {
-			bo, ok := in.(*ssa.BinOp)
-			if !ok {
-				continue
-			}
-			switch bo.Op {
-			case token.EQL, token.NEQ, token.LSS, token.LEQ, token.GTR, token.GEQ:
-			default:
-				continue
-			}
-			if _, isC := bo.X.(*ssa.Const); isC {
-				continue
-			}
-			if _, isC := bo.Y.(*ssa.Const); isC {
-				continue
-			}
-			for _, sides := range [][2]ssa.Value{{bo.X, bo.Y}, {bo.Y, bo.X}} {
-				if !c04Depends(sides[0], isPartsLen) || c04Depends(sides[1], isPartsLen) {
-					continue
-				}
-				if i := destOf(sides[1]); i >= 0 && destOf(sides[0]) < 0 {
-					cmps = append(cmps, cmp{bo, i})
-				}
+	body.instrs(func(_ *c04Frame, in ssa.Instruction) {
+		bo, ok := in.(*ssa.BinOp)
+		if !ok {
+			return
+		}
+		switch bo.Op {
+		case token.EQL, token.NEQ, token.LSS, token.LEQ, token.GTR, token.GEQ:
+		default:
+			return
+		}
+		if _, isC := bo.X.(*ssa.Const); isC {
+			return
+		}
+		if _, isC := bo.Y.(*ssa.Const); isC {
+			return
+		}
+		for _, c := range cmps {
+			if c.bo == bo {
+				return // the same helper in a second frame
 			}
 		}
-	}
+		for _, sides := range [][2]ssa.Value{{bo.X, bo.Y}, {bo.Y, bo.X}} {
+			if !dep(sides[0], isPartsLen) || dep(sides[1], isPartsLen) {
+				continue
+			}
+			if i := destOf(sides[1]); i >= 0 && destOf(sides[0]) < 0 {
+				cmps = append(cmps, cmp{bo, i})
+			}
+		}
+	})
 	if len(cmps) == 0 {
 		r.Undecided(rule, key+"#count-consumer", site, fmt.Sprintf("the %d integers of the whole-file row are parsed, but none is compared with the number of part rows collected from the suffixed keys: cannot tell which one is the part count, nor that a file whose final row is missing or disagrees with its part rows is refused", nf))
 		return -1
@@ -2517,14 +3840,14 @@ func c04CountConsumer(p *Program, r *Reporter, fn *ssa.Function, nf int) int {
 	nSucc := 0
 	for _, nr := range MaybeNilErrorReturns(fn) {
 		nSucc++
-		guarded := false
-		for _, f := range FactsAt(nr.From) {
+		guarded := body.factAt(c04Site{body.root, nr.From.Instrs[len(nr.From.Instrs)-1]}, func(_ *c04Frame, cond ssa.Value, val bool) bool {
 			for _, c := range cmps {
-				if f.Cond == ssa.Value(c.bo) && (c.bo.Op == token.EQL && f.Val || c.bo.Op == token.NEQ && !f.Val) {
-					guarded = true
+				if cond == ssa.Value(c.bo) && (c.bo.Op == token.EQL && val || c.bo.Op == token.NEQ && !val) {
+					return true
 				}
 			}
-		}
+			return false
+		}, 0)
 		if !guarded {
 			bad = fmt.Sprintf("the return at line %d serves the file although the number of part rows found is not known equal to the count of the w:<ref> row (an interrupted pack has part rows and no final row; a stale or inflated count has fewer part rows than it announces)", c04Line(p, nr.Ret.Pos()))
 		}
@@ -2614,6 +3937,13 @@ func c04ZCount(p *Program, r *Reporter, writers []*c04Writer) {
 	// readers
 	pos, nReaders := -1, 0
 	for _, fn := range p.FuncsIn(c04Rel) {
+		// a helper (or a directly called literal) is examined as part of its callers' effective bodies
+		if fn.Parent() == nil && c04IsHelper(fn) && len(p.StaticCallers(fn)) > 0 && len(p.FuncValueUses(fn)) == 0 {
+			continue
+		}
+		if fn.Parent() != nil && c04BodyOf(fn.Parent()).has(fn) {
+			continue
+		}
 		if i := c04CountConsumer(p, r, fn, nf); i >= 0 {
 			nReaders++
 			if pos >= 0 && pos != i {
@@ -2651,8 +3981,34 @@ func c04ZCount(p *Program, r *Reporter, writers []*c04Writer) {
 			r.Undecided(rule, construct, site, "the part count is rendered inside a helper; the rule follows counts computed in the writing function")
 			continue
 		}
+		// the pass: the writing function, the functions it is (as a helper) called from, and
+		// the package functions those call
 		top := TopFunc(w.c.Fn)
-		pass := c04PassFuncs(top)
+		tops := []*ssa.Function{top}
+		for i := 0; i < len(tops) && len(tops) < 8; i++ {
+			g := tops[i]
+			if !c04IsHelper(g) {
+				continue
+			}
+			for _, c := range p.StaticCallers(g) {
+				ct := TopFunc(c.Fn)
+				dup := false
+				for _, t := range tops {
+					if t == ct {
+						dup = true
+					}
+				}
+				if !dup {
+					tops = append(tops, ct)
+				}
+			}
+		}
+		pass := map[*ssa.Function]bool{}
+		for _, t := range tops {
+			for f := range c04PassFuncs(t) {
+				pass[f] = true
+			}
+		}
 		var refTok *c04Tok
 		for i := range w.key {
 			if w.key[i].Hole && w.key[i].class() == "ref" {
@@ -2697,7 +4053,7 @@ func c04ZCount(p *Program, r *Reporter, writers []*c04Writer) {
 			srcs = append(srcs, keySrc{src, how, pw})
 		}
 		if nPart == 0 {
-			r.Undecided(rule, construct, site, "the pass that writes this whole-file row ("+FuncKey(top)+" and the package functions it calls) writes no "+partKind+" row: nothing to relate the count to")
+			r.Undecided(rule, construct, site, "the pass that writes this whole-file row ("+FuncKey(top)+", its callers and the package functions they call) writes no "+partKind+" row: nothing to relate the count to")
 			continue
 		}
 		if undec != "" {
@@ -2707,10 +4063,15 @@ func c04ZCount(p *Program, r *Reporter, writers []*c04Writer) {
 		bad, good := "", ""
 		for _, ks := range srcs {
 			ks := ks
-			dep := c04DependsOpt(cnt.Val, func(x ssa.Value) bool {
-				id, ok := c04FieldOf(x)
-				return ok && id == ks.src
-			}, true)
+			dep := false
+			for _, t := range tops {
+				if c04DependsIn(c04BodyOf(t), cnt.Val, func(x ssa.Value) bool {
+					id, ok := c04FieldOf(x)
+					return ok && id == ks.src
+				}, true) {
+					dep = true
+				}
+			}
 			what := "the field " + ks.src.String() + " that holds each part's index"
 			if ks.how == "len" {
 				what = "the collection " + ks.src.String() + " whose length is each part's index"
@@ -2736,26 +4097,19 @@ func c04ZRecover(p *Program, r *Reporter) {
 	integ := p.Func(c04Rel, "storage", "checkLargeIntegrity")
 	lastOf := func(b *ssa.BasicBlock) ssa.Instruction { return b.Instrs[len(b.Instrs)-1] }
 
-	// (i)/(ii) constructor
-	var reCalls, ckCalls []CallSite
-	for _, c := range CallsIn(ctor, false) {
-		switch c.Callee() {
-		case reindex:
-			reCalls = append(reCalls, c)
-		case integ:
-			ckCalls = append(ckCalls, c)
-		}
-	}
+	// (i)/(ii) constructor (and the helpers it calls)
+	cbody := c04BodyOf(ctor)
+	reCalls := cbody.calls(func(c CallSite) bool { return c.Callee() == reindex })
+	ckCalls := cbody.calls(func(c CallSite) bool { return c.Callee() == integ })
 	if len(reCalls) == 0 {
 		r.Violation(rule, FuncKey(ctor)+"#reindex", p.Pos(ctor.Pos()), "the constructor no longer calls reindex in recovery mode: the meta index cannot be rebuilt from the zips")
 	}
-	for i, nr := range MaybeNilErrorReturns(ctor) {
-		at := lastOf(nr.From)
+	for _, nr := range MaybeNilErrorReturns(ctor) {
+		at := c04Site{cbody.root, lastOf(nr.From)}
 		construct := fmt.Sprintf("%s#success-return", FuncKey(ctor))
-		_ = i
 		checked := false
 		for _, ck := range ckCalls {
-			if Precedes(ck.Instr, at) {
+			if cbody.precedes(ck, at) {
 				checked = true
 			}
 		}
@@ -2764,12 +4118,12 @@ func c04ZRecover(p *Program, r *Reporter) {
 			bad = "a store is returned without checkLargeIntegrity having compared large with the z: rows"
 		}
 		for _, rc := range reCalls {
-			if rc.Value() == nil {
+			if rc.call().Value() == nil {
 				bad = "reindex result dropped"
 				continue
 			}
-			if ReachableFrom(rc.Instr, nil)[at] {
-				if ok, why := c04SuccessAt(rc.Value(), at); !ok {
+			if cbody.mayFollow(rc, at) {
+				if ok, why := cbody.successAt(rc, at); !ok {
 					bad = "a store is returned after reindex was started but not on its success edge (" + why + "): a half-built index would serve reads"
 				}
 			}
@@ -2777,99 +4131,99 @@ func c04ZRecover(p *Program, r *Reporter) {
 		r.Check(bad == "", rule, construct, p.Pos(nr.Ret.Pos()), "preceded by checkLargeIntegrity; on the success edge of reindex where reindex ran", bad)
 	}
 	// (iii) reindex: success only after every top-level CommitBatch succeeded; installs the index it filled
-	var commits []CallSite
-	var newMeta ssa.Value
-	for _, c := range CallsIn(reindex, false) {
+	rbody := c04BodyOf(reindex)
+	commits := rbody.calls(func(c CallSite) bool {
 		cc := c.Common()
-		if cc.IsInvoke() && cc.Method.Name() == "CommitBatch" && IsNamed(cc.Value.Type(), c04SortedPkg, "KeyValue") {
-			commits = append(commits, c)
-			newMeta = cc.Value
-		}
+		return cc.IsInvoke() && cc.Method.Name() == "CommitBatch" && IsNamed(cc.Value.Type(), c04SortedPkg, "KeyValue")
+	})
+	var newMeta ssa.Value
+	var newMetaFr *c04Frame
+	for _, cm := range commits {
+		newMetaFr, newMeta = c04Up(cm.fr, cm.call().Common().Value)
 	}
 	if len(commits) == 0 {
 		r.Violation(rule, FuncKey(reindex)+"#commit", p.Pos(reindex.Pos()), "reindex commits nothing at top level")
 	}
 	for _, nr := range MaybeNilErrorReturns(reindex) {
-		at := lastOf(nr.From)
+		at := c04Site{rbody.root, lastOf(nr.From)}
 		bad := ""
 		for _, cm := range commits {
-			if cm.Value() == nil {
+			if cm.call().Value() == nil {
 				bad = "CommitBatch result dropped"
 				continue
 			}
-			if ok, why := c04SuccessAt(cm.Value(), at); !ok {
-				bad = fmt.Sprintf("reindex reports success although the CommitBatch at line %d is not known to have succeeded (%s)", c04Line(p, cm.Pos()), why)
+			if ok, why := rbody.successAt(cm, at); !ok {
+				bad = fmt.Sprintf("reindex reports success although the CommitBatch at line %d is not known to have succeeded (%s)", c04Line(p, cm.in.Pos()), why)
 			}
 		}
 		r.Check(bad == "", rule, FuncKey(reindex)+"#success-return", p.Pos(nr.Ret.Pos()), fmt.Sprintf("on the success edge of %d top-level CommitBatch call(s)", len(commits)), bad)
 	}
 	nInstall := 0
-	for _, b := range reindex.Blocks {
-		for _, in := range b.Instrs {
-			st, ok := in.(*ssa.Store)
-			if !ok {
-				continue
-			}
-			fa, ok := st.Addr.(*ssa.FieldAddr)
-			if !ok || fieldName(fa.X.Type(), fa.Field) != "meta" {
-				continue
-			}
-			if n := NamedOf(fa.X.Type()); n == nil || n.Obj().Name() != "storage" {
-				continue
-			}
-			nInstall++
-			ok2 := newMeta != nil && sameOrigin(st.Val, newMeta)
-			for _, cm := range commits {
-				if cm.Value() != nil {
-					if k, _ := c04SuccessAt(cm.Value(), st); !k {
-						ok2 = false
-					}
+	rbody.instrs(func(fr *c04Frame, in ssa.Instruction) {
+		st, ok := in.(*ssa.Store)
+		if !ok {
+			return
+		}
+		fa, ok := st.Addr.(*ssa.FieldAddr)
+		if !ok || fieldName(fa.X.Type(), fa.Field) != "meta" {
+			return
+		}
+		if n := NamedOf(fa.X.Type()); n == nil || n.Obj().Name() != "storage" {
+			return
+		}
+		nInstall++
+		ok2 := newMeta != nil && c04SameIn(fr, st.Val, newMetaFr, newMeta)
+		for _, cm := range commits {
+			if cm.call().Value() != nil {
+				if k, _ := rbody.successAt(cm, c04Site{fr, st}); !k {
+					ok2 = false
 				}
 			}
-			r.Check(ok2, rule, FuncKey(reindex)+"#install-meta", p.Pos(st.Pos()), "s.meta is replaced by the KeyValue the rows were committed to, after the commits succeeded", "s.meta is replaced by something other than the KeyValue reindex filled, or before its commits succeeded")
 		}
-	}
+		r.Check(ok2, rule, FuncKey(reindex)+"#install-meta", p.Pos(st.Pos()), "s.meta is replaced by the KeyValue the rows were committed to, after the commits succeeded", "s.meta is replaced by something other than the KeyValue reindex filled, or before its commits succeeded")
+	})
 	if nInstall == 0 {
 		r.Violation(rule, FuncKey(reindex)+"#install-meta", p.Pos(reindex.Pos()), "reindex never installs the rebuilt index as s.meta")
 	}
 	// (iv) deleting a zip from large
 	n := 0
+	inUseFn := p.Func(c04Rel, "storage", "zipPartsInUse")
 	for _, fn := range p.FuncsIn(c04Rel) {
 		for _, c := range CallsIn(fn, false) {
+			c := c
 			cc := c.Common()
-			if !cc.IsInvoke() || cc.Method.Name() != "RemoveBlobs" || c04Role(cc.Value) != "large" {
+			if !cc.IsInvoke() || cc.Method.Name() != "RemoveBlobs" || !c04RoleAnywhere(p, cc.Value, 0)["large"] {
 				continue
 			}
 			n++
 			construct := FuncKey(fn) + "#large.RemoveBlobs"
-			inUseFn := p.Func(c04Rel, "storage", "zipPartsInUse")
-			elems, okE := c04VarargElems(cc.Args[1])
-			good, detail := false, "no zipPartsInUse call of the same ref guards the removal"
-			for _, g := range CallsIn(fn, false) {
-				if g.Callee() != inUseFn || g.Value() == nil {
-					continue
-				}
-				if k, why := c04SuccessAt(g.Value(), c.Instr); !k {
-					detail = "zipPartsInUse: " + why
-					continue
-				}
-				if !okE || len(elems) != 1 || !sameOrigin(elems[0], g.Common().Args[2]) {
-					detail = "the removed refs are not exactly the ref whose parts were checked"
-					continue
-				}
-				res := ResultValue(g.Value(), 0)
-				empty := false
-				for _, f := range FactsAt(c.Block()) {
-					if c04SaysEmpty(f.Cond, f.Val, func(v ssa.Value) bool { return res != nil && sameOrigin(v, res) }) {
-						empty = true
+			good, detail := c04InAllContexts(p, fn, func(body *c04Body, fr *c04Frame) (bool, string) {
+				site := c04Site{fr, c.Instr}
+				efr, ev := c04Up(fr, cc.Args[1])
+				elems, okE := c04VarargElems(originValue(ev))
+				detail := "no zipPartsInUse call of the same ref guards the removal"
+				for _, g := range body.calls(func(x CallSite) bool { return x.Callee() == inUseFn && x.Value() != nil }) {
+					gc := g.call()
+					if k, why := body.successAt(g, site); !k {
+						detail = "zipPartsInUse: " + why
+						continue
 					}
+					if !okE || len(elems) != 1 || !c04SameIn(efr, elems[0], g.fr, gc.Common().Args[2]) {
+						detail = "the removed refs are not exactly the ref whose parts were checked"
+						continue
+					}
+					res := ResultValue(gc.Value(), 0)
+					empty := body.factAt(site, func(ffr *c04Frame, cond ssa.Value, val bool) bool {
+						return c04SaysEmpty(cond, val, func(v ssa.Value) bool { return res != nil && c04SameIn(ffr, v, g.fr, res) })
+					}, 0)
+					if !empty {
+						detail = "the removal is not under the fact that zipPartsInUse returned no part in use"
+						continue
+					}
+					return true, "guarded by zipPartsInUse(same ref) == nil error and empty result"
 				}
-				if !empty {
-					detail = "the removal is not under the fact that zipPartsInUse returned no part in use"
-					continue
-				}
-				good, detail = true, "guarded by zipPartsInUse(same ref) == nil error and empty result"
-			}
+				return false, detail
+			})
 			r.Check(good, rule, construct, p.Pos(c.Pos()), detail, "a zip is removed from large: "+detail+" (logical blobs still mapped into it become unreadable)")
 		}
 	}
@@ -2887,6 +4241,7 @@ type c04Flow struct {
 	seenLoad map[string]bool
 	stores   map[*ssa.Alloc][]c04PathStore
 	fn       *ssa.Function
+	body     *c04Body
 }
 
 type c04PathStore struct {
@@ -2894,26 +4249,42 @@ type c04PathStore struct {
 	st   *ssa.Store
 }
 
-func c04NewFlow(fn *ssa.Function) *c04Flow {
-	fl := &c04Flow{leaves: map[string]ssa.Value{}, seenEl: map[ssa.Value]bool{}, seenLoad: map[string]bool{}, stores: map[*ssa.Alloc][]c04PathStore{}, fn: fn}
-	for _, b := range fn.Blocks {
-		for _, in := range b.Instrs {
-			st, ok := in.(*ssa.Store)
-			if !ok {
-				continue
+func c04NewFlow(fn *ssa.Function) *c04Flow { return c04NewFlowIn(nil, fn) }
+
+// c04NewFlowIn: element flow over an effective body (parameters of helpers
+// hold what the callers pass, helper calls yield what the helpers return).
+func c04NewFlowIn(body *c04Body, fn *ssa.Function) *c04Flow {
+	fl := &c04Flow{leaves: map[string]ssa.Value{}, seenEl: map[ssa.Value]bool{}, seenLoad: map[string]bool{}, stores: map[*ssa.Alloc][]c04PathStore{}, fn: fn, body: body}
+	fns := []*ssa.Function{fn}
+	if body != nil {
+		seen := map[*ssa.Function]bool{fn: true}
+		for _, fr := range body.frames {
+			if !seen[fr.fn] {
+				seen[fr.fn] = true
+				fns = append(fns, fr.fn)
 			}
-			var path []int
-			addr := st.Addr
-			for {
-				if fa, ok := addr.(*ssa.FieldAddr); ok {
-					path = append([]int{fa.Field}, path...)
-					addr = fa.X
+		}
+	}
+	for _, f := range fns {
+		for _, b := range f.Blocks {
+			for _, in := range b.Instrs {
+				st, ok := in.(*ssa.Store)
+				if !ok {
 					continue
 				}
-				break
-			}
-			if al, ok := addr.(*ssa.Alloc); ok {
-				fl.stores[al] = append(fl.stores[al], c04PathStore{path, st})
+				var path []int
+				addr := st.Addr
+				for {
+					if fa, ok := addr.(*ssa.FieldAddr); ok {
+						path = append([]int{fa.Field}, path...)
+						addr = fa.X
+						continue
+					}
+					break
+				}
+				if al, ok := addr.(*ssa.Alloc); ok {
+					fl.stores[al] = append(fl.stores[al], c04PathStore{path, st})
+				}
 			}
 		}
 	}
@@ -2948,11 +4319,39 @@ func (fl *c04Flow) elems(s ssa.Value, seen map[ssa.Value]bool) (vals []ssa.Value
 			resolvable = resolvable && r
 		}
 		return vals, resolvable
+	case *ssa.Parameter:
+		args := fl.body.argsOf(x)
+		resolvable = len(args) > 0
+		for _, a := range args {
+			v, r := fl.elems(a, seen)
+			vals = append(vals, v...)
+			resolvable = resolvable && r
+		}
+		return vals, resolvable
+	case *ssa.Extract:
+		if rs, ok := fl.body.resultsOf(x); ok {
+			resolvable = true
+			for _, rv := range rs {
+				v, r := fl.elems(rv, seen)
+				vals = append(vals, v...)
+				resolvable = resolvable && r
+			}
+			return vals, resolvable
+		}
 	case *ssa.Call:
 		if b, ok := x.Call.Value.(*ssa.Builtin); ok && b.Name() == "append" && len(x.Call.Args) == 2 {
 			a, r1 := fl.elems(x.Call.Args[0], seen)
 			c, r2 := fl.elems(x.Call.Args[1], seen)
 			return append(a, c...), r1 && r2
+		}
+		if rs, ok := fl.body.resultsOf(x); ok {
+			resolvable = true
+			for _, rv := range rs {
+				v, r := fl.elems(rv, seen)
+				vals = append(vals, v...)
+				resolvable = resolvable && r
+			}
+			return vals, resolvable
 		}
 	case *ssa.Slice:
 		if al, ok := x.X.(*ssa.Alloc); ok {
@@ -3019,6 +4418,30 @@ func (fl *c04Flow) field(w ssa.Value, path []int, depth int) {
 	case *ssa.ChangeType:
 		fl.field(x.X, path, depth+1)
 		return
+	case *ssa.Parameter:
+		if args := fl.body.argsOf(x); len(args) > 0 {
+			key := fmt.Sprintf("prm%p%v", x, path)
+			if fl.seenLoad[key] {
+				return
+			}
+			fl.seenLoad[key] = true
+			for _, a := range args {
+				fl.field(a, path, depth+1)
+			}
+			return
+		}
+	case *ssa.Call, *ssa.Extract:
+		if rs, ok := fl.body.resultsOf(w); ok {
+			key := fmt.Sprintf("res%p%v", w, path)
+			if fl.seenLoad[key] {
+				return
+			}
+			fl.seenLoad[key] = true
+			for _, rv := range rs {
+				fl.field(rv, path, depth+1)
+			}
+			return
+		}
 	}
 	fl.leaf(w, path)
 }
@@ -3057,8 +4480,8 @@ func (fl *c04Flow) load(addr ssa.Value, path []int, self ssa.Value, depth int) {
 }
 
 // c04RefLeaves: leaves of all elements of slice s.
-func c04SliceLeaves(fn *ssa.Function, s ssa.Value) (map[string]ssa.Value, bool) {
-	fl := c04NewFlow(fn)
+func c04SliceLeaves(body *c04Body, fn *ssa.Function, s ssa.Value) (map[string]ssa.Value, bool) {
+	fl := c04NewFlowIn(body, fn)
 	es, ok := fl.elems(s, map[ssa.Value]bool{})
 	if !ok {
 		return nil, false
@@ -3069,8 +4492,8 @@ func c04SliceLeaves(fn *ssa.Function, s ssa.Value) (map[string]ssa.Value, bool) 
 	return fl.leaves, true
 }
 
-func c04ValueLeaves(fn *ssa.Function, v ssa.Value) map[string]ssa.Value {
-	fl := c04NewFlow(fn)
+func c04ValueLeaves(body *c04Body, fn *ssa.Function, v ssa.Value) map[string]ssa.Value {
+	fl := c04NewFlowIn(body, fn)
 	fl.field(v, nil, 0)
 	return fl.leaves
 }
@@ -3149,37 +4572,15 @@ func c04CmpFact(cond ssa.Value, val bool) (x, y ssa.Value, op token.Token, ok bo
 	return bo.X, bo.Y, op, true
 }
 
-// c04ProvenEqual: do the facts at block b say that value a (already stripped)
-// equals a value accepted by isB? weaker names an ordering / inequality fact
-// between the two when that is all there is.
-func c04ProvenEqual(p *Program, b *ssa.BasicBlock, a ssa.Value, isB func(ssa.Value) bool) (eq bool, weaker string) {
-	for _, f := range FactsAt(b) {
-		x, y, op, ok := c04CmpFact(f.Cond, f.Val)
-		if !ok {
-			continue
-		}
-		sx, sy := c04StripWiden(p, x), c04StripWiden(p, y)
-		if !(sx == a && isB(sy)) && !(sy == a && isB(sx)) {
-			continue
-		}
-		if op == token.EQL {
-			return true, ""
-		}
-		if sy == a {
-			// render as "a OP other"
-			op = map[token.Token]token.Token{token.LSS: token.GTR, token.GTR: token.LSS, token.LEQ: token.GEQ, token.GEQ: token.LEQ, token.NEQ: token.NEQ}[op]
-		}
-		weaker = op.String()
-	}
-	return false, weaker
-}
-
 // c04RefSrc: a value a blob ref may come from, and the innermost append through
 // which it entered a slice on the way to the use (nil: used directly).
 type c04RefSrc struct {
 	val ssa.Value
 	app *ssa.Call
 }
+
+// c04WB: the effective body the Z-whole-blob element flow runs in (set by c04ZWhole).
+var c04WB *c04Body
 
 // c04AppendElems lists the values a locally built slice may hold, each with
 // the append call that put it there; ok=false when some contributor is opaque
@@ -3189,6 +4590,27 @@ func c04AppendElems(s ssa.Value, seen map[ssa.Value]bool) (out []c04RefSrc, ok b
 		return nil, true
 	}
 	seen[s] = true
+	// across helpers of the body under analysis: a parameter holds what the
+	// callers pass, a helper call yields what the helper returns
+	if prm, isPrm := s.(*ssa.Parameter); isPrm {
+		args := c04WB.argsOf(prm)
+		ok = len(args) > 0
+		for _, a := range args {
+			v, r := c04AppendElems(a, seen)
+			out = append(out, v...)
+			ok = ok && r
+		}
+		return out, ok
+	}
+	if rs, isRes := c04WB.resultsOf(s); isRes {
+		ok = true
+		for _, rv := range rs {
+			v, r := c04AppendElems(rv, seen)
+			out = append(out, v...)
+			ok = ok && r
+		}
+		return out, ok
+	}
 	switch x := s.(type) {
 	case *ssa.Const:
 		return nil, x.Value == nil
@@ -3269,6 +4691,13 @@ func c04RefSrcs(v ssa.Value) []c04RefSrc {
 					walk(e, app, depth+1)
 				}
 				return
+			case *ssa.Parameter:
+				if args := c04WB.argsOf(x); len(args) > 0 {
+					for _, a := range args {
+						walk(a, app, depth+1)
+					}
+					return
+				}
 			case *ssa.UnOp:
 				if x.Op == token.MUL {
 					switch a := x.X.(type) {
@@ -3302,9 +4731,29 @@ func c04RefSrcs(v ssa.Value) []c04RefSrc {
 	return out
 }
 
+// c04ResolveArg: a helper's parameter stands for the caller's argument when
+// every activation in the Z-whole body is passed the same value.
+func c04ResolveArg(v ssa.Value, depth int) ssa.Value {
+	prm, ok := originValue(v).(*ssa.Parameter)
+	if !ok || depth > c04MaxFrameDepth {
+		return v
+	}
+	args := c04WB.argsOf(prm)
+	if len(args) == 0 {
+		return v
+	}
+	for _, a := range args[1:] {
+		if !sameOrigin(a, args[0]) {
+			return v
+		}
+	}
+	return c04ResolveArg(args[0], depth+1)
+}
+
 // c04SameRef: a and b denote the same blob ref: the same value, or two loads
 // of the same element (same slice value, same index value) of a slice.
 func c04SameRef(a, b ssa.Value) bool {
+	a, b = c04ResolveArg(a, 0), c04ResolveArg(b, 0)
 	if sameOrigin(a, b) {
 		return true
 	}
@@ -3371,6 +4820,20 @@ func c04FieldVals(fl *c04Flow, w ssa.Value, path []int, depth int) ([]ssa.Value,
 		var out []ssa.Value
 		for _, e := range x.Edges {
 			v, ok := c04FieldVals(fl, e, path, depth+1)
+			if !ok {
+				return nil, false
+			}
+			out = append(out, v...)
+		}
+		return out, true
+	case *ssa.Parameter:
+		args := c04WB.argsOf(x)
+		if len(args) == 0 {
+			return nil, false
+		}
+		var out []ssa.Value
+		for _, a := range args {
+			v, ok := c04FieldVals(fl, a, path, depth+1)
 			if !ok {
 				return nil, false
 			}
@@ -3490,13 +4953,14 @@ type c04WholeEntry struct {
 	ref   ssa.Value
 	size  ssa.Value
 	undec string
+	fr    *c04Frame // the activation site belongs to (set by c04ZWhole)
 }
 
 // c04PairUp splits the (ref, size) operands of a row writer into one pair per
 // element constructor when both are read from the same element of a locally
 // built slice of structs.
 func c04PairUp(fn *ssa.Function, kind string, at ssa.Instruction, vr, vs ssa.Value) []c04WholeEntry {
-	fl := c04NewFlow(fn)
+	fl := c04NewFlowIn(c04WB, fn)
 	single := func(why string) []c04WholeEntry {
 		return []c04WholeEntry{{kind: kind, site: at, ref: vr, size: vs, undec: why}}
 	}
@@ -3730,20 +5194,22 @@ func c04ZipEntryWriter(v ssa.Value) *ssa.Call {
 
 // c04Copy: one io.Copy-family call with its classified source.
 type c04Copy struct {
+	site    c04Site
 	call    *ssa.Call
 	src     ssa.Value   // innermost reader reached through known wrappers
 	caps    []ssa.Value // CopyN length / LimitReader limits on the way
 	entries []*ssa.Call // zip entry writers the destination depends on
 }
 
-func c04Copies(fn *ssa.Function) []c04Copy {
+func c04Copies(body *c04Body) []c04Copy {
 	var out []c04Copy
-	for _, c := range CallsIn(fn, false) {
+	for _, s := range body.calls(nil) {
+		c := s.call()
 		call := c.Value()
 		if call == nil {
 			continue
 		}
-		var cp c04Copy
+		cp := c04Copy{site: s}
 		switch {
 		case c.IsStatic("io", "", "Copy"), c.IsStatic("io", "", "CopyBuffer"):
 		case c.IsStatic("io", "", "CopyN"):
@@ -3754,7 +5220,7 @@ func c04Copies(fn *ssa.Function) []c04Copy {
 		cp.call = call
 		v := call.Call.Args[1]
 		for i := 0; i < 16; i++ {
-			v = originValue(v)
+			v = originValue(c04ResolveArg(v, 0))
 			inner, isCall := v.(*ssa.Call)
 			if !isCall {
 				break
@@ -3771,15 +5237,15 @@ func c04Copies(fn *ssa.Function) []c04Copy {
 			}
 			break
 		}
-		cp.src = originValue(v)
+		cp.src = originValue(c04ResolveArg(v, 0))
 		seenEntry := map[*ssa.Call]bool{}
-		c04Depends(call.Call.Args[0], func(x ssa.Value) bool {
+		c04DependsIn(body, call.Call.Args[0], func(x ssa.Value) bool {
 			if zc := c04ZipEntryWriter(x); zc != nil && !seenEntry[zc] {
 				seenEntry[zc] = true
 				cp.entries = append(cp.entries, zc)
 			}
 			return false
-		})
+		}, false)
 		out = append(out, cp)
 	}
 	return out
@@ -3835,32 +5301,69 @@ func c04ZWhole(p *Program, r *Reporter, writers []*c04Writer) {
 	fn := p.Func(c04Rel, "packer", "writeAZip")
 	key := FuncKey(fn)
 	pkgFns := p.FuncsIn(c04Rel)
-	recvs := c04LargeReceives(fn)
-	copies := c04Copies(fn)
+	body := c04BodyOf(fn)
+	c04WB = body
+	defer func() { c04WB = nil }()
+	recvs := c04LargeReceives(body)
+	copies := c04Copies(body)
 	r.Analysed("writeAZip_copy_calls", len(copies))
+	siteOf := func(in ssa.Instruction, near *c04Frame) c04Site {
+		v, _ := in.(ssa.Value)
+		if v == nil {
+			for _, fr := range body.framesOf(in.Parent()) {
+				return c04Site{fr, in}
+			}
+			return c04Site{body.root, in}
+		}
+		return c04Site{body.frameNear(v, near), in}
+	}
 
 	// every path from `from` to a receive of the zip into large passes `via`
-	covers := func(via, from ssa.Instruction) bool {
-		if Precedes(via, from) {
+	covers := func(via, from c04Site) bool {
+		if body.precedes(via, from) {
 			return true
 		}
-		if via.Parent() != from.Parent() || len(recvs) == 0 {
+		if len(recvs) == 0 {
 			return false
 		}
-		reach := ReachableFrom(from, func(in ssa.Instruction) bool { return in == via })
+		reach := body.reach(from, nil, func(s c04Site) bool { return s == via })
 		for _, rc := range recvs {
-			if reach[rc.c.Instr] {
+			if reach[rc.site] {
 				return false
 			}
 		}
 		return true
+	}
+	// provenEq: a fact known at the site says that value a equals a value accepted by
+	// isB (frame-aware c04ProvenEqual; also facts a helper establishes on its success returns)
+	provenEq := func(at c04Site, a ssa.Value, isB func(fr *c04Frame, v ssa.Value) bool) (bool, string) {
+		weaker := ""
+		eq := body.factAt(at, func(fr *c04Frame, cond ssa.Value, val bool) bool {
+			x, y, op, ok := c04CmpFact(cond, val)
+			if !ok {
+				return false
+			}
+			sx, sy := c04StripWiden(p, x), c04StripWiden(p, y)
+			if !(sx == a && isB(fr, sy)) && !(sy == a && isB(fr, sx)) {
+				return false
+			}
+			if op == token.EQL {
+				return true
+			}
+			if sy == a {
+				op = map[token.Token]token.Token{token.LSS: token.GTR, token.GTR: token.LSS, token.LEQ: token.GEQ, token.GEQ: token.LEQ, token.NEQ: token.NEQ}[op]
+			}
+			weaker = op.String()
+			return false
+		}, 0)
+		return eq, weaker
 	}
 
 	// ---- the descriptions: b: rows of the batch and manifest entries
 	var entries []c04WholeEntry
 	bKind := c04StrConst(p, "blobMetaPrefix") + "<ref>"
 	for _, w := range writers {
-		if w.c.Fn != fn || w.kind != bKind {
+		if !body.has(w.c.Fn) || w.kind != bKind {
 			continue
 		}
 		ent := c04WholeEntry{kind: "b:-row", site: w.c.Instr}
@@ -3883,72 +5386,86 @@ func c04ZWhole(p *Program, r *Reporter, writers []*c04Writer) {
 			entries = append(entries, ent)
 			continue
 		}
-		entries = append(entries, c04PairUp(fn, "b:-row", w.c.Instr, vr, vs)...)
+		entries = append(entries, c04PairUp(w.c.Fn, "b:-row", w.c.Instr, vr, vs)...)
 	}
 	maniT := p.NamedType(c04Rel, "Manifest")
-	for _, b := range fn.Blocks {
-		for _, in := range b.Instrs {
-			st, ok := in.(*ssa.Store)
-			if !ok {
-				continue
+	var bodyFns []*ssa.Function
+	for _, fr := range body.frames {
+		dup := false
+		for _, f := range bodyFns {
+			if f == fr.fn {
+				dup = true
 			}
-			fa, ok := st.Addr.(*ssa.FieldAddr)
-			if !ok || NamedOf(fa.X.Type()) != maniT {
-				continue
-			}
-			sl, ok := st.Val.Type().Underlying().(*types.Slice)
-			if !ok {
-				continue
-			}
-			path, ri, si, ok := c04SizedRefPath(sl.Elem())
-			if !ok {
-				continue
-			}
-			kind := "manifest." + fieldName(fa.X.Type(), fa.Field)
-			// new elements: literal arguments of the append; the base must be the field itself or a locally built slice
-			var elems []c04RefSrc
-			resolved := false
-			if app, isApp := st.Val.(*ssa.Call); isApp {
-				if bi, isB := app.Call.Value.(*ssa.Builtin); isB && bi.Name() == "append" && len(app.Call.Args) == 2 {
-					selfBase := false
-					if ld, isLd := app.Call.Args[0].(*ssa.UnOp); isLd && ld.Op == token.MUL {
-						if fa2, isFA := ld.X.(*ssa.FieldAddr); isFA && fa2.X == fa.X && fa2.Field == fa.Field {
-							selfBase = true
-						}
-					}
-					if lit, isLit := c04VarargElems(app.Call.Args[1]); isLit && selfBase {
-						for _, e := range lit {
-							elems = append(elems, c04RefSrc{e, app})
-						}
-						resolved = true
-					}
-				}
-			}
-			if !resolved {
-				es, ok := c04AppendElems(st.Val, map[ssa.Value]bool{})
+		}
+		if !dup {
+			bodyFns = append(bodyFns, fr.fn)
+		}
+	}
+	for _, bfn := range bodyFns {
+		for _, b := range bfn.Blocks {
+			for _, in := range b.Instrs {
+				st, ok := in.(*ssa.Store)
 				if !ok {
-					entries = append(entries, c04WholeEntry{kind: kind, site: st, undec: "the manifest entries are not assembled element by element in this function"})
 					continue
 				}
-				elems = es
-			}
-			fl := c04NewFlow(fn)
-			for _, e := range elems {
-				ent := c04WholeEntry{kind: kind, site: st}
-				if ein, isIn := e.val.(ssa.Instruction); isIn {
-					ent.site = ein
+				fa, ok := st.Addr.(*ssa.FieldAddr)
+				if !ok || NamedOf(fa.X.Type()) != maniT {
+					continue
 				}
-				rv, okr := c04FieldVals(fl, e.val, append(append([]int{}, path...), ri), 0)
-				sv, oks := c04FieldVals(fl, e.val, append(append([]int{}, path...), si), 0)
-				switch {
-				case !okr || !oks:
-					ent.undec = "a field of the manifest entry cannot be followed to the value stored in it"
-				case len(rv) != 1 || len(sv) != 1:
-					ent.undec = fmt.Sprintf("the manifest entry has %d ref and %d size candidates; the rule pairs exactly one with one", len(rv), len(sv))
-				default:
-					ent.ref, ent.size = rv[0], sv[0]
+				sl, ok := st.Val.Type().Underlying().(*types.Slice)
+				if !ok {
+					continue
 				}
-				entries = append(entries, ent)
+				path, ri, si, ok := c04SizedRefPath(sl.Elem())
+				if !ok {
+					continue
+				}
+				kind := "manifest." + fieldName(fa.X.Type(), fa.Field)
+				// new elements: literal arguments of the append; the base must be the field itself or a locally built slice
+				var elems []c04RefSrc
+				resolved := false
+				if app, isApp := st.Val.(*ssa.Call); isApp {
+					if bi, isB := app.Call.Value.(*ssa.Builtin); isB && bi.Name() == "append" && len(app.Call.Args) == 2 {
+						selfBase := false
+						if ld, isLd := app.Call.Args[0].(*ssa.UnOp); isLd && ld.Op == token.MUL {
+							if fa2, isFA := ld.X.(*ssa.FieldAddr); isFA && fa2.X == fa.X && fa2.Field == fa.Field {
+								selfBase = true
+							}
+						}
+						if lit, isLit := c04VarargElems(app.Call.Args[1]); isLit && selfBase {
+							for _, e := range lit {
+								elems = append(elems, c04RefSrc{e, app})
+							}
+							resolved = true
+						}
+					}
+				}
+				if !resolved {
+					es, ok := c04AppendElems(st.Val, map[ssa.Value]bool{})
+					if !ok {
+						entries = append(entries, c04WholeEntry{kind: kind, site: st, undec: "the manifest entries are not assembled element by element in this function"})
+						continue
+					}
+					elems = es
+				}
+				fl := c04NewFlowIn(body, bfn)
+				for _, e := range elems {
+					ent := c04WholeEntry{kind: kind, site: st}
+					if ein, isIn := e.val.(ssa.Instruction); isIn {
+						ent.site = ein
+					}
+					rv, okr := c04FieldVals(fl, e.val, append(append([]int{}, path...), ri), 0)
+					sv, oks := c04FieldVals(fl, e.val, append(append([]int{}, path...), si), 0)
+					switch {
+					case !okr || !oks:
+						ent.undec = "a field of the manifest entry cannot be followed to the value stored in it"
+					case len(rv) != 1 || len(sv) != 1:
+						ent.undec = fmt.Sprintf("the manifest entry has %d ref and %d size candidates; the rule pairs exactly one with one", len(rv), len(sv))
+					default:
+						ent.ref, ent.size = rv[0], sv[0]
+					}
+					entries = append(entries, ent)
+				}
 			}
 		}
 	}
@@ -3963,24 +5480,25 @@ func c04ZWhole(p *Program, r *Reporter, writers []*c04Writer) {
 			return t.kind == "store" && t.call == f
 		}
 	}
-	// sizeEq: value v is the size reported by fetch f, or proven equal to it at block b
-	sizeEq := func(v ssa.Value, f *ssa.Call, b *ssa.BasicBlock) bool {
-		sv := c04StripWiden(p, v)
+	// sizeEq: value v is the size reported by fetch f, or proven equal to it at the site
+	sizeEq := func(v ssa.Value, f *ssa.Call, at c04Site) bool {
+		sv := c04StripWiden(p, c04ResolveArg(v, 0))
 		if isSizeOf(f)(sv) {
 			return true
 		}
-		eq, _ := c04ProvenEqual(p, b, sv, isSizeOf(f))
+		eq, _ := provenEq(at, sv, func(_ *c04Frame, x ssa.Value) bool { return isSizeOf(f)(c04StripWiden(p, c04ResolveArg(x, 0))) })
 		return eq
 	}
 
 	seenConstruct := map[string]int{}
 	for _, ent := range entries {
 		site := p.Pos(ent.site.Pos())
+		entSite := siteOf(ent.site, body.root)
 		if ent.undec != "" {
 			r.Undecided(rule, key+"#"+ent.kind+" ?", site, ent.undec)
 			continue
 		}
-		term := c04ClassifySize(p, ent.size)
+		term := c04ClassifySize(p, c04ResolveArg(ent.size, 0))
 		base := key + "#" + ent.kind + " " + term.desc
 		if n := seenConstruct[base]; n > 0 {
 			base = fmt.Sprintf("%s/%d", base, n+1)
@@ -4055,7 +5573,7 @@ func c04ZWhole(p *Program, r *Reporter, writers []*c04Writer) {
 					}
 					continue
 				}
-				if len(cp.entries) == 0 || !covers(cp.call, ent.site) {
+				if len(cp.entries) == 0 || !covers(cp.site, entSite) {
 					continue
 				}
 				capOK := true
@@ -4122,42 +5640,46 @@ func c04ZWhole(p *Program, r *Reporter, writers []*c04Writer) {
 			sizeUndec = "the recorded ref has no source the rule can find"
 		}
 		for _, src := range srcs {
-			var gate ssa.Instruction = ent.site
+			gate := entSite
 			if src.app != nil {
-				gate = src.app
+				gate = siteOf(src.app, entSite.fr)
 			}
-			gline := c04Line(p, gate.Pos())
+			gline := c04Line(p, gate.in.Pos())
 			// the fetches of this ref that precede the gate
 			var fetches []*ssa.Call
+			fetchSite := map[*ssa.Call]c04Site{}
 			if term.kind == "store" && src.app == nil {
 				fetches = []*ssa.Call{term.call}
+				fetchSite[term.call] = siteOf(term.call, entSite.fr)
 			} else {
-				for _, c := range CallsIn(fn, false) {
-					call := c.Value()
+				for _, cs := range body.calls(nil) {
+					call := cs.call().Value()
 					if call == nil || !(c04IsFetchCall(call) || c04IsStatCall(call)) {
 						continue
 					}
-					if sameOrigin(c04RefArg(call), src.val) && Precedes(call, gate) {
+					if c04SameRef(c04RefArg(call), src.val) && body.precedes(cs, gate) {
 						fetches = append(fetches, call)
+						fetchSite[call] = cs
 					}
 				}
 			}
 			if len(fetches) == 0 {
-				// the ref handed to a helper of the module: the fetch/compare/copy may live there
+				// the ref handed to a function outside the effective body: the fetch/compare/copy may live there
 				helper := ""
-				for _, c := range CallsIn(fn, false) {
+				for _, cs := range body.calls(nil) {
+					c := cs.call()
 					f := c.Callee()
-					if f == nil || !InModule(f) || f.Blocks == nil || !Precedes(c.Instr, gate) {
+					if f == nil || !InModule(f) || f.Blocks == nil || cs.fr.kids[c.Instr] != nil || !body.precedes(cs, gate) {
 						continue
 					}
 					for _, a := range c.Common().Args {
-						if c04IsRef(a.Type()) && sameOrigin(a, src.val) {
+						if c04IsRef(a.Type()) && c04SameRef(a, src.val) {
 							helper = FuncKey(f)
 						}
 					}
 				}
 				if helper != "" {
-					sizeUndec = fmt.Sprintf("no Fetch/StatBlob of the ref in writeAZip itself precedes the point where it is recorded (line %d), but the ref is handed to %s: the rule does not follow the fetch, the size comparison and the copy into helpers", gline, helper)
+					sizeUndec = fmt.Sprintf("no Fetch/StatBlob of the ref in writeAZip or the package helpers it calls precedes the point where it is recorded (line %d), but the ref is handed to %s: the rule does not follow the fetch, the size comparison and the copy into that function", gline, helper)
 					bytesUndec = sizeUndec
 					continue
 				}
@@ -4184,9 +5706,9 @@ func c04ZWhole(p *Program, r *Reporter, writers []*c04Writer) {
 					if fsz == nil {
 						continue
 					}
-					eq, wk := c04ProvenEqual(p, gate.Block(), fsz, func(x ssa.Value) bool {
-						fid, k, ok := c04MapLookup(x)
-						return ok && fid == term.fid && sameOrigin(k, src.val)
+					eq, wk := provenEq(gate, fsz, func(_ *c04Frame, x ssa.Value) bool {
+						fid, k, ok := c04MapLookup(c04StripWiden(p, c04ResolveArg(x, 0)))
+						return ok && fid == term.fid && c04SameRef(k, src.val)
 					})
 					if eq {
 						okSize = true
@@ -4224,12 +5746,12 @@ func c04ZWhole(p *Program, r *Reporter, writers []*c04Writer) {
 						}
 						continue
 					}
-					if len(cp.entries) == 0 || !covers(cp.call, gate) {
+					if len(cp.entries) == 0 || !covers(cp.site, gate) {
 						continue
 					}
 					capOK := true
 					for _, n := range cp.caps {
-						if !sizeEq(n, f, cp.call.Block()) {
+						if !sizeEq(n, f, cp.site) {
 							capOK = false
 						}
 					}
@@ -4237,7 +5759,7 @@ func c04ZWhole(p *Program, r *Reporter, writers []*c04Writer) {
 						// a capped copy is still whole when the number of bytes copied is proven equal to the blob's size
 						cnt := ResultValue(cp.call, 0)
 						if cnt != nil {
-							if eq, _ := c04ProvenEqual(p, gate.Block(), cnt, func(x ssa.Value) bool { return sizeEq(x, f, gate.Block()) }); eq {
+							if eq, _ := provenEq(gate, cnt, func(_ *c04Frame, x ssa.Value) bool { return sizeEq(x, f, gate) }); eq {
 								capOK = true
 							}
 						}
